@@ -18,10 +18,12 @@ open MpVerif.Gen.GslFormulas
 /-- arguments as a list -/
 def envOf (l : List ℝ) : Nat → ℝ := fun k => l.getD k 0
 
+variable (I : String → ℝ → ℝ)
+
 theorem deriv_of_formula (i : Nat) (env : Nat → ℝ) (v d : RExpr)
-    (hok : Ok env v.inline) (heq : eval env (diff i v.inline) = eval env d.inline) :
-    HasDerivAt (fun t => evalT (Function.update env i t) v) (evalT env d) (env i) := by
-  have h := hasDerivAt_diff i env (env i) v.inline (by rwa [Function.update_eq_self])
+    (hok : Ok I env v.inline) (heq : eval I env (diff i v.inline) = eval I env d.inline) :
+    HasDerivAt (fun t => evalT I (Function.update env i t) v) (evalT I env d) (env i) := by
+  have h := hasDerivAt_diff I i env (env i) v.inline (by rwa [Function.update_eq_self])
   rw [Function.update_eq_self] at h
   unfold evalT
   exact h.congr_deriv heq
@@ -37,9 +39,9 @@ macro "rsimp" : tactic =>
 /-! ### one-argument bindings -/
 
 theorem log1p_d0 (x : ℝ) (hx : x + 1 ≠ 0) :
-    HasDerivAt (fun t => evalT (Function.update (envOf [x]) 0 t) f_gsl_log1p.value) (evalT (envOf [x]) (f_gsl_log1p.d 0)) x := by
+    HasDerivAt (fun t => evalT I (Function.update (envOf [x]) 0 t) f_gsl_log1p.value) (evalT I (envOf [x]) (f_gsl_log1p.d 0)) x := by
   have h1 : 1 + x ≠ 0 := by rwa [add_comm]
-  refine deriv_of_formula 0 (envOf [x]) _ _ ?_ ?_
+  refine deriv_of_formula I 0 (envOf [x]) _ _ ?_ ?_
   · simp [f_gsl_log1p, RExpr.inline, specE, RExpr.subst, Ok, eval, envOf, h1]
   · simp [f_gsl_log1p, Formulas.d, RExpr.inline, specE, RExpr.subst, eval, diff, envOf]
     field_simp
@@ -48,8 +50,8 @@ theorem log1p_d0 (x : ℝ) (hx : x + 1 ≠ 0) :
 /-! ### the other bindings (same recipe: side conditions, then algebra) -/
 
 theorem expm1_d0 (x : ℝ)  :
-    HasDerivAt (fun t => evalT (Function.update (envOf [x]) 0 t) f_gsl_expm1.value) (evalT (envOf [x]) (f_gsl_expm1.d 0)) x := by
-  refine deriv_of_formula _ _ _ _ ?_ ?_
+    HasDerivAt (fun t => evalT I (Function.update (envOf [x]) 0 t) f_gsl_expm1.value) (evalT I (envOf [x]) (f_gsl_expm1.d 0)) x := by
+  refine deriv_of_formula I _ _ _ _ ?_ ?_
   · simp [f_gsl_expm1, Formulas.d, Formulas.h, RExpr.inline, specE, RExpr.subst, Ok, eval, envOf, *]
   · simp [f_gsl_expm1, Formulas.d, Formulas.h, RExpr.inline, specE, RExpr.subst, eval, diff, envOf, *]
     try field_simp
@@ -57,8 +59,8 @@ theorem expm1_d0 (x : ℝ)  :
     all_goals (try simp)
 
 theorem expm1_h0 (x : ℝ)  :
-    HasDerivAt (fun t => evalT (Function.update (envOf [x]) 0 t) (f_gsl_expm1.d 0)) (evalT (envOf [x]) (f_gsl_expm1.h 0)) x := by
-  refine deriv_of_formula _ _ _ _ ?_ ?_
+    HasDerivAt (fun t => evalT I (Function.update (envOf [x]) 0 t) (f_gsl_expm1.d 0)) (evalT I (envOf [x]) (f_gsl_expm1.h 0)) x := by
+  refine deriv_of_formula I _ _ _ _ ?_ ?_
   · simp [f_gsl_expm1, Formulas.d, Formulas.h, RExpr.inline, specE, RExpr.subst, Ok, eval, envOf, *]
   · simp [f_gsl_expm1, Formulas.d, Formulas.h, RExpr.inline, specE, RExpr.subst, eval, diff, envOf, *]
     try field_simp
@@ -66,8 +68,8 @@ theorem expm1_h0 (x : ℝ)  :
     all_goals (try simp)
 
 theorem log_d0 (x : ℝ) (hx : x ≠ 0) :
-    HasDerivAt (fun t => evalT (Function.update (envOf [x]) 0 t) f_gsl_sf_log.value) (evalT (envOf [x]) (f_gsl_sf_log.d 0)) x := by
-  refine deriv_of_formula _ _ _ _ ?_ ?_
+    HasDerivAt (fun t => evalT I (Function.update (envOf [x]) 0 t) f_gsl_sf_log.value) (evalT I (envOf [x]) (f_gsl_sf_log.d 0)) x := by
+  refine deriv_of_formula I _ _ _ _ ?_ ?_
   · simp [f_gsl_sf_log, Formulas.d, Formulas.h, RExpr.inline, specE, RExpr.subst, Ok, eval, envOf, *]
   · simp [f_gsl_sf_log, Formulas.d, Formulas.h, RExpr.inline, specE, RExpr.subst, eval, diff, envOf, *]
     try field_simp
@@ -75,8 +77,8 @@ theorem log_d0 (x : ℝ) (hx : x ≠ 0) :
     all_goals (try simp)
 
 theorem log_h0 (x : ℝ) (hx : x ≠ 0) :
-    HasDerivAt (fun t => evalT (Function.update (envOf [x]) 0 t) (f_gsl_sf_log.d 0)) (evalT (envOf [x]) (f_gsl_sf_log.h 0)) x := by
-  refine deriv_of_formula _ _ _ _ ?_ ?_
+    HasDerivAt (fun t => evalT I (Function.update (envOf [x]) 0 t) (f_gsl_sf_log.d 0)) (evalT I (envOf [x]) (f_gsl_sf_log.h 0)) x := by
+  refine deriv_of_formula I _ _ _ _ ?_ ?_
   · simp [f_gsl_sf_log, Formulas.d, Formulas.h, RExpr.inline, specE, RExpr.subst, Ok, eval, envOf, *]
   · simp [f_gsl_sf_log, Formulas.d, Formulas.h, RExpr.inline, specE, RExpr.subst, eval, diff, envOf, *]
     try field_simp
@@ -84,8 +86,8 @@ theorem log_h0 (x : ℝ) (hx : x ≠ 0) :
     all_goals (try simp)
 
 theorem log_abs_d0 (x : ℝ) (hx : x ≠ 0) :
-    HasDerivAt (fun t => evalT (Function.update (envOf [x]) 0 t) f_gsl_sf_log_abs.value) (evalT (envOf [x]) (f_gsl_sf_log_abs.d 0)) x := by
-  refine deriv_of_formula _ _ _ _ ?_ ?_
+    HasDerivAt (fun t => evalT I (Function.update (envOf [x]) 0 t) f_gsl_sf_log_abs.value) (evalT I (envOf [x]) (f_gsl_sf_log_abs.d 0)) x := by
+  refine deriv_of_formula I _ _ _ _ ?_ ?_
   · simp [f_gsl_sf_log_abs, Formulas.d, Formulas.h, RExpr.inline, specE, RExpr.subst, Ok, eval, envOf, *]
   · simp [f_gsl_sf_log_abs, Formulas.d, Formulas.h, RExpr.inline, specE, RExpr.subst, eval, diff, envOf, *]
     try field_simp
@@ -93,8 +95,8 @@ theorem log_abs_d0 (x : ℝ) (hx : x ≠ 0) :
     all_goals (try simp)
 
 theorem log_abs_h0 (x : ℝ) (hx : x ≠ 0) :
-    HasDerivAt (fun t => evalT (Function.update (envOf [x]) 0 t) (f_gsl_sf_log_abs.d 0)) (evalT (envOf [x]) (f_gsl_sf_log_abs.h 0)) x := by
-  refine deriv_of_formula _ _ _ _ ?_ ?_
+    HasDerivAt (fun t => evalT I (Function.update (envOf [x]) 0 t) (f_gsl_sf_log_abs.d 0)) (evalT I (envOf [x]) (f_gsl_sf_log_abs.h 0)) x := by
+  refine deriv_of_formula I _ _ _ _ ?_ ?_
   · simp [f_gsl_sf_log_abs, Formulas.d, Formulas.h, RExpr.inline, specE, RExpr.subst, Ok, eval, envOf, *]
   · simp [f_gsl_sf_log_abs, Formulas.d, Formulas.h, RExpr.inline, specE, RExpr.subst, eval, diff, envOf, *]
     try field_simp
@@ -102,8 +104,8 @@ theorem log_abs_h0 (x : ℝ) (hx : x ≠ 0) :
     all_goals (try simp)
 
 theorem log_1plusx_d0 (x : ℝ) (hx : 1 + x ≠ 0) :
-    HasDerivAt (fun t => evalT (Function.update (envOf [x]) 0 t) f_gsl_sf_log_1plusx.value) (evalT (envOf [x]) (f_gsl_sf_log_1plusx.d 0)) x := by
-  refine deriv_of_formula _ _ _ _ ?_ ?_
+    HasDerivAt (fun t => evalT I (Function.update (envOf [x]) 0 t) f_gsl_sf_log_1plusx.value) (evalT I (envOf [x]) (f_gsl_sf_log_1plusx.d 0)) x := by
+  refine deriv_of_formula I _ _ _ _ ?_ ?_
   · simp [f_gsl_sf_log_1plusx, Formulas.d, Formulas.h, RExpr.inline, specE, RExpr.subst, Ok, eval, envOf, *]
   · simp [f_gsl_sf_log_1plusx, Formulas.d, Formulas.h, RExpr.inline, specE, RExpr.subst, eval, diff, envOf, *]
     try field_simp
@@ -111,8 +113,8 @@ theorem log_1plusx_d0 (x : ℝ) (hx : 1 + x ≠ 0) :
     all_goals (try simp)
 
 theorem log_1plusx_h0 (x : ℝ) (hx : 1 + x ≠ 0) :
-    HasDerivAt (fun t => evalT (Function.update (envOf [x]) 0 t) (f_gsl_sf_log_1plusx.d 0)) (evalT (envOf [x]) (f_gsl_sf_log_1plusx.h 0)) x := by
-  refine deriv_of_formula _ _ _ _ ?_ ?_
+    HasDerivAt (fun t => evalT I (Function.update (envOf [x]) 0 t) (f_gsl_sf_log_1plusx.d 0)) (evalT I (envOf [x]) (f_gsl_sf_log_1plusx.h 0)) x := by
+  refine deriv_of_formula I _ _ _ _ ?_ ?_
   · simp [f_gsl_sf_log_1plusx, Formulas.d, Formulas.h, RExpr.inline, specE, RExpr.subst, Ok, eval, envOf, *]
   · simp [f_gsl_sf_log_1plusx, Formulas.d, Formulas.h, RExpr.inline, specE, RExpr.subst, eval, diff, envOf, *]
     try field_simp
@@ -120,8 +122,8 @@ theorem log_1plusx_h0 (x : ℝ) (hx : 1 + x ≠ 0) :
     all_goals (try simp)
 
 theorem log_1plusx_mx_d0 (x : ℝ) (hx : 1 + x ≠ 0) :
-    HasDerivAt (fun t => evalT (Function.update (envOf [x]) 0 t) f_gsl_sf_log_1plusx_mx.value) (evalT (envOf [x]) (f_gsl_sf_log_1plusx_mx.d 0)) x := by
-  refine deriv_of_formula _ _ _ _ ?_ ?_
+    HasDerivAt (fun t => evalT I (Function.update (envOf [x]) 0 t) f_gsl_sf_log_1plusx_mx.value) (evalT I (envOf [x]) (f_gsl_sf_log_1plusx_mx.d 0)) x := by
+  refine deriv_of_formula I _ _ _ _ ?_ ?_
   · simp [f_gsl_sf_log_1plusx_mx, Formulas.d, Formulas.h, RExpr.inline, specE, RExpr.subst, Ok, eval, envOf, *]
   · simp [f_gsl_sf_log_1plusx_mx, Formulas.d, Formulas.h, RExpr.inline, specE, RExpr.subst, eval, diff, envOf, *]
     try field_simp
@@ -129,8 +131,8 @@ theorem log_1plusx_mx_d0 (x : ℝ) (hx : 1 + x ≠ 0) :
     all_goals (try simp)
 
 theorem log_1plusx_mx_h0 (x : ℝ) (hx : 1 + x ≠ 0) :
-    HasDerivAt (fun t => evalT (Function.update (envOf [x]) 0 t) (f_gsl_sf_log_1plusx_mx.d 0)) (evalT (envOf [x]) (f_gsl_sf_log_1plusx_mx.h 0)) x := by
-  refine deriv_of_formula _ _ _ _ ?_ ?_
+    HasDerivAt (fun t => evalT I (Function.update (envOf [x]) 0 t) (f_gsl_sf_log_1plusx_mx.d 0)) (evalT I (envOf [x]) (f_gsl_sf_log_1plusx_mx.h 0)) x := by
+  refine deriv_of_formula I _ _ _ _ ?_ ?_
   · simp [f_gsl_sf_log_1plusx_mx, Formulas.d, Formulas.h, RExpr.inline, specE, RExpr.subst, Ok, eval, envOf, *]
   · simp [f_gsl_sf_log_1plusx_mx, Formulas.d, Formulas.h, RExpr.inline, specE, RExpr.subst, eval, diff, envOf, *]
     try field_simp
@@ -138,8 +140,8 @@ theorem log_1plusx_mx_h0 (x : ℝ) (hx : 1 + x ≠ 0) :
     all_goals (try simp)
 
 theorem legendre_P1_d0 (x : ℝ)  :
-    HasDerivAt (fun t => evalT (Function.update (envOf [x]) 0 t) f_gsl_sf_legendre_P1.value) (evalT (envOf [x]) (f_gsl_sf_legendre_P1.d 0)) x := by
-  refine deriv_of_formula _ _ _ _ ?_ ?_
+    HasDerivAt (fun t => evalT I (Function.update (envOf [x]) 0 t) f_gsl_sf_legendre_P1.value) (evalT I (envOf [x]) (f_gsl_sf_legendre_P1.d 0)) x := by
+  refine deriv_of_formula I _ _ _ _ ?_ ?_
   · simp [f_gsl_sf_legendre_P1, Formulas.d, Formulas.h, RExpr.inline, specE, RExpr.subst, Ok, eval, envOf, *]
   · simp [f_gsl_sf_legendre_P1, Formulas.d, Formulas.h, RExpr.inline, specE, RExpr.subst, eval, diff, envOf, *]
     try field_simp
@@ -147,8 +149,8 @@ theorem legendre_P1_d0 (x : ℝ)  :
     all_goals (try simp)
 
 theorem legendre_P1_h0 (x : ℝ)  :
-    HasDerivAt (fun t => evalT (Function.update (envOf [x]) 0 t) (f_gsl_sf_legendre_P1.d 0)) (evalT (envOf [x]) (f_gsl_sf_legendre_P1.h 0)) x := by
-  refine deriv_of_formula _ _ _ _ ?_ ?_
+    HasDerivAt (fun t => evalT I (Function.update (envOf [x]) 0 t) (f_gsl_sf_legendre_P1.d 0)) (evalT I (envOf [x]) (f_gsl_sf_legendre_P1.h 0)) x := by
+  refine deriv_of_formula I _ _ _ _ ?_ ?_
   · simp [f_gsl_sf_legendre_P1, Formulas.d, Formulas.h, RExpr.inline, specE, RExpr.subst, Ok, eval, envOf, *]
   · simp [f_gsl_sf_legendre_P1, Formulas.d, Formulas.h, RExpr.inline, specE, RExpr.subst, eval, diff, envOf, *]
     try field_simp
@@ -156,8 +158,8 @@ theorem legendre_P1_h0 (x : ℝ)  :
     all_goals (try simp)
 
 theorem legendre_P2_d0 (x : ℝ)  :
-    HasDerivAt (fun t => evalT (Function.update (envOf [x]) 0 t) f_gsl_sf_legendre_P2.value) (evalT (envOf [x]) (f_gsl_sf_legendre_P2.d 0)) x := by
-  refine deriv_of_formula _ _ _ _ ?_ ?_
+    HasDerivAt (fun t => evalT I (Function.update (envOf [x]) 0 t) f_gsl_sf_legendre_P2.value) (evalT I (envOf [x]) (f_gsl_sf_legendre_P2.d 0)) x := by
+  refine deriv_of_formula I _ _ _ _ ?_ ?_
   · simp [f_gsl_sf_legendre_P2, Formulas.d, Formulas.h, RExpr.inline, specE, RExpr.subst, Ok, eval, envOf, *]
   · simp [f_gsl_sf_legendre_P2, Formulas.d, Formulas.h, RExpr.inline, specE, RExpr.subst, eval, diff, envOf, *]
     try field_simp
@@ -165,8 +167,8 @@ theorem legendre_P2_d0 (x : ℝ)  :
     all_goals (try simp)
 
 theorem legendre_P2_h0 (x : ℝ)  :
-    HasDerivAt (fun t => evalT (Function.update (envOf [x]) 0 t) (f_gsl_sf_legendre_P2.d 0)) (evalT (envOf [x]) (f_gsl_sf_legendre_P2.h 0)) x := by
-  refine deriv_of_formula _ _ _ _ ?_ ?_
+    HasDerivAt (fun t => evalT I (Function.update (envOf [x]) 0 t) (f_gsl_sf_legendre_P2.d 0)) (evalT I (envOf [x]) (f_gsl_sf_legendre_P2.h 0)) x := by
+  refine deriv_of_formula I _ _ _ _ ?_ ?_
   · simp [f_gsl_sf_legendre_P2, Formulas.d, Formulas.h, RExpr.inline, specE, RExpr.subst, Ok, eval, envOf, *]
   · simp [f_gsl_sf_legendre_P2, Formulas.d, Formulas.h, RExpr.inline, specE, RExpr.subst, eval, diff, envOf, *]
     try field_simp
@@ -174,8 +176,8 @@ theorem legendre_P2_h0 (x : ℝ)  :
     all_goals (try simp)
 
 theorem legendre_P3_d0 (x : ℝ)  :
-    HasDerivAt (fun t => evalT (Function.update (envOf [x]) 0 t) f_gsl_sf_legendre_P3.value) (evalT (envOf [x]) (f_gsl_sf_legendre_P3.d 0)) x := by
-  refine deriv_of_formula _ _ _ _ ?_ ?_
+    HasDerivAt (fun t => evalT I (Function.update (envOf [x]) 0 t) f_gsl_sf_legendre_P3.value) (evalT I (envOf [x]) (f_gsl_sf_legendre_P3.d 0)) x := by
+  refine deriv_of_formula I _ _ _ _ ?_ ?_
   · simp [f_gsl_sf_legendre_P3, Formulas.d, Formulas.h, RExpr.inline, specE, RExpr.subst, Ok, eval, envOf, *]
   · simp [f_gsl_sf_legendre_P3, Formulas.d, Formulas.h, RExpr.inline, specE, RExpr.subst, eval, diff, envOf, *]
     try field_simp
@@ -183,8 +185,8 @@ theorem legendre_P3_d0 (x : ℝ)  :
     all_goals (try simp)
 
 theorem legendre_P3_h0 (x : ℝ)  :
-    HasDerivAt (fun t => evalT (Function.update (envOf [x]) 0 t) (f_gsl_sf_legendre_P3.d 0)) (evalT (envOf [x]) (f_gsl_sf_legendre_P3.h 0)) x := by
-  refine deriv_of_formula _ _ _ _ ?_ ?_
+    HasDerivAt (fun t => evalT I (Function.update (envOf [x]) 0 t) (f_gsl_sf_legendre_P3.d 0)) (evalT I (envOf [x]) (f_gsl_sf_legendre_P3.h 0)) x := by
+  refine deriv_of_formula I _ _ _ _ ?_ ?_
   · simp [f_gsl_sf_legendre_P3, Formulas.d, Formulas.h, RExpr.inline, specE, RExpr.subst, Ok, eval, envOf, *]
   · simp [f_gsl_sf_legendre_P3, Formulas.d, Formulas.h, RExpr.inline, specE, RExpr.subst, eval, diff, envOf, *]
     try field_simp
@@ -192,8 +194,8 @@ theorem legendre_P3_h0 (x : ℝ)  :
     all_goals (try simp)
 
 theorem gegenpoly_1_d0 (l x : ℝ) (hl : l ≠ 0) :
-    HasDerivAt (fun t => evalT (Function.update (envOf [l, x]) 0 t) f_gsl_sf_gegenpoly_1.value) (evalT (envOf [l, x]) (f_gsl_sf_gegenpoly_1.d 0)) l := by
-  refine deriv_of_formula _ _ _ _ ?_ ?_
+    HasDerivAt (fun t => evalT I (Function.update (envOf [l, x]) 0 t) f_gsl_sf_gegenpoly_1.value) (evalT I (envOf [l, x]) (f_gsl_sf_gegenpoly_1.d 0)) l := by
+  refine deriv_of_formula I _ _ _ _ ?_ ?_
   · simp [f_gsl_sf_gegenpoly_1, Formulas.d, Formulas.h, RExpr.inline, specE, RExpr.subst, Ok, eval, envOf, *]
   · simp [f_gsl_sf_gegenpoly_1, Formulas.d, Formulas.h, RExpr.inline, specE, RExpr.subst, eval, diff, envOf, *]
     try field_simp
@@ -201,8 +203,8 @@ theorem gegenpoly_1_d0 (l x : ℝ) (hl : l ≠ 0) :
     all_goals (try simp)
 
 theorem gegenpoly_1_d1 (l x : ℝ) (hl : l ≠ 0) :
-    HasDerivAt (fun t => evalT (Function.update (envOf [l, x]) 1 t) f_gsl_sf_gegenpoly_1.value) (evalT (envOf [l, x]) (f_gsl_sf_gegenpoly_1.d 1)) x := by
-  refine deriv_of_formula _ _ _ _ ?_ ?_
+    HasDerivAt (fun t => evalT I (Function.update (envOf [l, x]) 1 t) f_gsl_sf_gegenpoly_1.value) (evalT I (envOf [l, x]) (f_gsl_sf_gegenpoly_1.d 1)) x := by
+  refine deriv_of_formula I _ _ _ _ ?_ ?_
   · simp [f_gsl_sf_gegenpoly_1, Formulas.d, Formulas.h, RExpr.inline, specE, RExpr.subst, Ok, eval, envOf, *]
   · simp [f_gsl_sf_gegenpoly_1, Formulas.d, Formulas.h, RExpr.inline, specE, RExpr.subst, eval, diff, envOf, *]
     try field_simp
@@ -210,8 +212,8 @@ theorem gegenpoly_1_d1 (l x : ℝ) (hl : l ≠ 0) :
     all_goals (try simp)
 
 theorem gegenpoly_1_h0 (l x : ℝ) (hl : l ≠ 0) :
-    HasDerivAt (fun t => evalT (Function.update (envOf [l, x]) 0 t) (f_gsl_sf_gegenpoly_1.d 0)) (evalT (envOf [l, x]) (f_gsl_sf_gegenpoly_1.h 0)) l := by
-  refine deriv_of_formula _ _ _ _ ?_ ?_
+    HasDerivAt (fun t => evalT I (Function.update (envOf [l, x]) 0 t) (f_gsl_sf_gegenpoly_1.d 0)) (evalT I (envOf [l, x]) (f_gsl_sf_gegenpoly_1.h 0)) l := by
+  refine deriv_of_formula I _ _ _ _ ?_ ?_
   · simp [f_gsl_sf_gegenpoly_1, Formulas.d, Formulas.h, RExpr.inline, specE, RExpr.subst, Ok, eval, envOf, *]
   · simp [f_gsl_sf_gegenpoly_1, Formulas.d, Formulas.h, RExpr.inline, specE, RExpr.subst, eval, diff, envOf, *]
     try field_simp
@@ -219,8 +221,8 @@ theorem gegenpoly_1_h0 (l x : ℝ) (hl : l ≠ 0) :
     all_goals (try simp)
 
 theorem gegenpoly_1_h1 (l x : ℝ) (hl : l ≠ 0) :
-    HasDerivAt (fun t => evalT (Function.update (envOf [l, x]) 1 t) (f_gsl_sf_gegenpoly_1.d 0)) (evalT (envOf [l, x]) (f_gsl_sf_gegenpoly_1.h 1)) x := by
-  refine deriv_of_formula _ _ _ _ ?_ ?_
+    HasDerivAt (fun t => evalT I (Function.update (envOf [l, x]) 1 t) (f_gsl_sf_gegenpoly_1.d 0)) (evalT I (envOf [l, x]) (f_gsl_sf_gegenpoly_1.h 1)) x := by
+  refine deriv_of_formula I _ _ _ _ ?_ ?_
   · simp [f_gsl_sf_gegenpoly_1, Formulas.d, Formulas.h, RExpr.inline, specE, RExpr.subst, Ok, eval, envOf, *]
   · simp [f_gsl_sf_gegenpoly_1, Formulas.d, Formulas.h, RExpr.inline, specE, RExpr.subst, eval, diff, envOf, *]
     try field_simp
@@ -228,8 +230,8 @@ theorem gegenpoly_1_h1 (l x : ℝ) (hl : l ≠ 0) :
     all_goals (try simp)
 
 theorem gegenpoly_1_h2 (l x : ℝ) (hl : l ≠ 0) :
-    HasDerivAt (fun t => evalT (Function.update (envOf [l, x]) 1 t) (f_gsl_sf_gegenpoly_1.d 1)) (evalT (envOf [l, x]) (f_gsl_sf_gegenpoly_1.h 2)) x := by
-  refine deriv_of_formula _ _ _ _ ?_ ?_
+    HasDerivAt (fun t => evalT I (Function.update (envOf [l, x]) 1 t) (f_gsl_sf_gegenpoly_1.d 1)) (evalT I (envOf [l, x]) (f_gsl_sf_gegenpoly_1.h 2)) x := by
+  refine deriv_of_formula I _ _ _ _ ?_ ?_
   · simp [f_gsl_sf_gegenpoly_1, Formulas.d, Formulas.h, RExpr.inline, specE, RExpr.subst, Ok, eval, envOf, *]
   · simp [f_gsl_sf_gegenpoly_1, Formulas.d, Formulas.h, RExpr.inline, specE, RExpr.subst, eval, diff, envOf, *]
     try field_simp
@@ -237,8 +239,8 @@ theorem gegenpoly_1_h2 (l x : ℝ) (hl : l ≠ 0) :
     all_goals (try simp)
 
 theorem gegenpoly_2_d0 (l x : ℝ) (hl : l ≠ 0) :
-    HasDerivAt (fun t => evalT (Function.update (envOf [l, x]) 0 t) f_gsl_sf_gegenpoly_2.value) (evalT (envOf [l, x]) (f_gsl_sf_gegenpoly_2.d 0)) l := by
-  refine deriv_of_formula _ _ _ _ ?_ ?_
+    HasDerivAt (fun t => evalT I (Function.update (envOf [l, x]) 0 t) f_gsl_sf_gegenpoly_2.value) (evalT I (envOf [l, x]) (f_gsl_sf_gegenpoly_2.d 0)) l := by
+  refine deriv_of_formula I _ _ _ _ ?_ ?_
   · simp [f_gsl_sf_gegenpoly_2, Formulas.d, Formulas.h, RExpr.inline, specE, RExpr.subst, Ok, eval, envOf, *]
   · simp [f_gsl_sf_gegenpoly_2, Formulas.d, Formulas.h, RExpr.inline, specE, RExpr.subst, eval, diff, envOf, *]
     try field_simp
@@ -246,8 +248,8 @@ theorem gegenpoly_2_d0 (l x : ℝ) (hl : l ≠ 0) :
     all_goals (try simp)
 
 theorem gegenpoly_2_d1 (l x : ℝ) (hl : l ≠ 0) :
-    HasDerivAt (fun t => evalT (Function.update (envOf [l, x]) 1 t) f_gsl_sf_gegenpoly_2.value) (evalT (envOf [l, x]) (f_gsl_sf_gegenpoly_2.d 1)) x := by
-  refine deriv_of_formula _ _ _ _ ?_ ?_
+    HasDerivAt (fun t => evalT I (Function.update (envOf [l, x]) 1 t) f_gsl_sf_gegenpoly_2.value) (evalT I (envOf [l, x]) (f_gsl_sf_gegenpoly_2.d 1)) x := by
+  refine deriv_of_formula I _ _ _ _ ?_ ?_
   · simp [f_gsl_sf_gegenpoly_2, Formulas.d, Formulas.h, RExpr.inline, specE, RExpr.subst, Ok, eval, envOf, *]
   · simp [f_gsl_sf_gegenpoly_2, Formulas.d, Formulas.h, RExpr.inline, specE, RExpr.subst, eval, diff, envOf, *]
     try field_simp
@@ -255,8 +257,8 @@ theorem gegenpoly_2_d1 (l x : ℝ) (hl : l ≠ 0) :
     all_goals (try simp)
 
 theorem gegenpoly_2_h0 (l x : ℝ) (hl : l ≠ 0) :
-    HasDerivAt (fun t => evalT (Function.update (envOf [l, x]) 0 t) (f_gsl_sf_gegenpoly_2.d 0)) (evalT (envOf [l, x]) (f_gsl_sf_gegenpoly_2.h 0)) l := by
-  refine deriv_of_formula _ _ _ _ ?_ ?_
+    HasDerivAt (fun t => evalT I (Function.update (envOf [l, x]) 0 t) (f_gsl_sf_gegenpoly_2.d 0)) (evalT I (envOf [l, x]) (f_gsl_sf_gegenpoly_2.h 0)) l := by
+  refine deriv_of_formula I _ _ _ _ ?_ ?_
   · simp [f_gsl_sf_gegenpoly_2, Formulas.d, Formulas.h, RExpr.inline, specE, RExpr.subst, Ok, eval, envOf, *]
   · simp [f_gsl_sf_gegenpoly_2, Formulas.d, Formulas.h, RExpr.inline, specE, RExpr.subst, eval, diff, envOf, *]
     try field_simp
@@ -264,8 +266,8 @@ theorem gegenpoly_2_h0 (l x : ℝ) (hl : l ≠ 0) :
     all_goals (try simp)
 
 theorem gegenpoly_2_h1 (l x : ℝ) (hl : l ≠ 0) :
-    HasDerivAt (fun t => evalT (Function.update (envOf [l, x]) 1 t) (f_gsl_sf_gegenpoly_2.d 0)) (evalT (envOf [l, x]) (f_gsl_sf_gegenpoly_2.h 1)) x := by
-  refine deriv_of_formula _ _ _ _ ?_ ?_
+    HasDerivAt (fun t => evalT I (Function.update (envOf [l, x]) 1 t) (f_gsl_sf_gegenpoly_2.d 0)) (evalT I (envOf [l, x]) (f_gsl_sf_gegenpoly_2.h 1)) x := by
+  refine deriv_of_formula I _ _ _ _ ?_ ?_
   · simp [f_gsl_sf_gegenpoly_2, Formulas.d, Formulas.h, RExpr.inline, specE, RExpr.subst, Ok, eval, envOf, *]
   · simp [f_gsl_sf_gegenpoly_2, Formulas.d, Formulas.h, RExpr.inline, specE, RExpr.subst, eval, diff, envOf, *]
     try field_simp
@@ -273,8 +275,8 @@ theorem gegenpoly_2_h1 (l x : ℝ) (hl : l ≠ 0) :
     all_goals (try simp)
 
 theorem gegenpoly_2_h2 (l x : ℝ) (hl : l ≠ 0) :
-    HasDerivAt (fun t => evalT (Function.update (envOf [l, x]) 1 t) (f_gsl_sf_gegenpoly_2.d 1)) (evalT (envOf [l, x]) (f_gsl_sf_gegenpoly_2.h 2)) x := by
-  refine deriv_of_formula _ _ _ _ ?_ ?_
+    HasDerivAt (fun t => evalT I (Function.update (envOf [l, x]) 1 t) (f_gsl_sf_gegenpoly_2.d 1)) (evalT I (envOf [l, x]) (f_gsl_sf_gegenpoly_2.h 2)) x := by
+  refine deriv_of_formula I _ _ _ _ ?_ ?_
   · simp [f_gsl_sf_gegenpoly_2, Formulas.d, Formulas.h, RExpr.inline, specE, RExpr.subst, Ok, eval, envOf, *]
   · simp [f_gsl_sf_gegenpoly_2, Formulas.d, Formulas.h, RExpr.inline, specE, RExpr.subst, eval, diff, envOf, *]
     try field_simp
@@ -282,8 +284,8 @@ theorem gegenpoly_2_h2 (l x : ℝ) (hl : l ≠ 0) :
     all_goals (try simp)
 
 theorem gegenpoly_3_d0 (l x : ℝ) (hl : l ≠ 0) :
-    HasDerivAt (fun t => evalT (Function.update (envOf [l, x]) 0 t) f_gsl_sf_gegenpoly_3.value) (evalT (envOf [l, x]) (f_gsl_sf_gegenpoly_3.d 0)) l := by
-  refine deriv_of_formula _ _ _ _ ?_ ?_
+    HasDerivAt (fun t => evalT I (Function.update (envOf [l, x]) 0 t) f_gsl_sf_gegenpoly_3.value) (evalT I (envOf [l, x]) (f_gsl_sf_gegenpoly_3.d 0)) l := by
+  refine deriv_of_formula I _ _ _ _ ?_ ?_
   · simp [f_gsl_sf_gegenpoly_3, Formulas.d, Formulas.h, RExpr.inline, specE, RExpr.subst, Ok, eval, envOf, *]
   · simp [f_gsl_sf_gegenpoly_3, Formulas.d, Formulas.h, RExpr.inline, specE, RExpr.subst, eval, diff, envOf, *]
     try field_simp
@@ -291,8 +293,8 @@ theorem gegenpoly_3_d0 (l x : ℝ) (hl : l ≠ 0) :
     all_goals (try simp)
 
 theorem gegenpoly_3_d1 (l x : ℝ) (hl : l ≠ 0) :
-    HasDerivAt (fun t => evalT (Function.update (envOf [l, x]) 1 t) f_gsl_sf_gegenpoly_3.value) (evalT (envOf [l, x]) (f_gsl_sf_gegenpoly_3.d 1)) x := by
-  refine deriv_of_formula _ _ _ _ ?_ ?_
+    HasDerivAt (fun t => evalT I (Function.update (envOf [l, x]) 1 t) f_gsl_sf_gegenpoly_3.value) (evalT I (envOf [l, x]) (f_gsl_sf_gegenpoly_3.d 1)) x := by
+  refine deriv_of_formula I _ _ _ _ ?_ ?_
   · simp [f_gsl_sf_gegenpoly_3, Formulas.d, Formulas.h, RExpr.inline, specE, RExpr.subst, Ok, eval, envOf, *]
   · simp [f_gsl_sf_gegenpoly_3, Formulas.d, Formulas.h, RExpr.inline, specE, RExpr.subst, eval, diff, envOf, *]
     try field_simp
@@ -300,8 +302,8 @@ theorem gegenpoly_3_d1 (l x : ℝ) (hl : l ≠ 0) :
     all_goals (try simp)
 
 theorem gegenpoly_3_h0 (l x : ℝ) (hl : l ≠ 0) :
-    HasDerivAt (fun t => evalT (Function.update (envOf [l, x]) 0 t) (f_gsl_sf_gegenpoly_3.d 0)) (evalT (envOf [l, x]) (f_gsl_sf_gegenpoly_3.h 0)) l := by
-  refine deriv_of_formula _ _ _ _ ?_ ?_
+    HasDerivAt (fun t => evalT I (Function.update (envOf [l, x]) 0 t) (f_gsl_sf_gegenpoly_3.d 0)) (evalT I (envOf [l, x]) (f_gsl_sf_gegenpoly_3.h 0)) l := by
+  refine deriv_of_formula I _ _ _ _ ?_ ?_
   · simp [f_gsl_sf_gegenpoly_3, Formulas.d, Formulas.h, RExpr.inline, specE, RExpr.subst, Ok, eval, envOf, *]
   · simp [f_gsl_sf_gegenpoly_3, Formulas.d, Formulas.h, RExpr.inline, specE, RExpr.subst, eval, diff, envOf, *]
     try field_simp
@@ -309,8 +311,8 @@ theorem gegenpoly_3_h0 (l x : ℝ) (hl : l ≠ 0) :
     all_goals (try simp)
 
 theorem gegenpoly_3_h1 (l x : ℝ) (hl : l ≠ 0) :
-    HasDerivAt (fun t => evalT (Function.update (envOf [l, x]) 1 t) (f_gsl_sf_gegenpoly_3.d 0)) (evalT (envOf [l, x]) (f_gsl_sf_gegenpoly_3.h 1)) x := by
-  refine deriv_of_formula _ _ _ _ ?_ ?_
+    HasDerivAt (fun t => evalT I (Function.update (envOf [l, x]) 1 t) (f_gsl_sf_gegenpoly_3.d 0)) (evalT I (envOf [l, x]) (f_gsl_sf_gegenpoly_3.h 1)) x := by
+  refine deriv_of_formula I _ _ _ _ ?_ ?_
   · simp [f_gsl_sf_gegenpoly_3, Formulas.d, Formulas.h, RExpr.inline, specE, RExpr.subst, Ok, eval, envOf, *]
   · simp [f_gsl_sf_gegenpoly_3, Formulas.d, Formulas.h, RExpr.inline, specE, RExpr.subst, eval, diff, envOf, *]
     try field_simp
@@ -318,8 +320,8 @@ theorem gegenpoly_3_h1 (l x : ℝ) (hl : l ≠ 0) :
     all_goals (try simp)
 
 theorem gegenpoly_3_h2 (l x : ℝ) (hl : l ≠ 0) :
-    HasDerivAt (fun t => evalT (Function.update (envOf [l, x]) 1 t) (f_gsl_sf_gegenpoly_3.d 1)) (evalT (envOf [l, x]) (f_gsl_sf_gegenpoly_3.h 2)) x := by
-  refine deriv_of_formula _ _ _ _ ?_ ?_
+    HasDerivAt (fun t => evalT I (Function.update (envOf [l, x]) 1 t) (f_gsl_sf_gegenpoly_3.d 1)) (evalT I (envOf [l, x]) (f_gsl_sf_gegenpoly_3.h 2)) x := by
+  refine deriv_of_formula I _ _ _ _ ?_ ?_
   · simp [f_gsl_sf_gegenpoly_3, Formulas.d, Formulas.h, RExpr.inline, specE, RExpr.subst, Ok, eval, envOf, *]
   · simp [f_gsl_sf_gegenpoly_3, Formulas.d, Formulas.h, RExpr.inline, specE, RExpr.subst, eval, diff, envOf, *]
     try field_simp
@@ -327,8 +329,8 @@ theorem gegenpoly_3_h2 (l x : ℝ) (hl : l ≠ 0) :
     all_goals (try simp)
 
 theorem laguerre_1_d0 (a x : ℝ)  :
-    HasDerivAt (fun t => evalT (Function.update (envOf [a, x]) 0 t) f_gsl_sf_laguerre_1.value) (evalT (envOf [a, x]) (f_gsl_sf_laguerre_1.d 0)) a := by
-  refine deriv_of_formula _ _ _ _ ?_ ?_
+    HasDerivAt (fun t => evalT I (Function.update (envOf [a, x]) 0 t) f_gsl_sf_laguerre_1.value) (evalT I (envOf [a, x]) (f_gsl_sf_laguerre_1.d 0)) a := by
+  refine deriv_of_formula I _ _ _ _ ?_ ?_
   · simp [f_gsl_sf_laguerre_1, Formulas.d, Formulas.h, RExpr.inline, specE, RExpr.subst, Ok, eval, envOf, *]
   · simp [f_gsl_sf_laguerre_1, Formulas.d, Formulas.h, RExpr.inline, specE, RExpr.subst, eval, diff, envOf, *]
     try field_simp
@@ -336,8 +338,8 @@ theorem laguerre_1_d0 (a x : ℝ)  :
     all_goals (try simp)
 
 theorem laguerre_1_d1 (a x : ℝ)  :
-    HasDerivAt (fun t => evalT (Function.update (envOf [a, x]) 1 t) f_gsl_sf_laguerre_1.value) (evalT (envOf [a, x]) (f_gsl_sf_laguerre_1.d 1)) x := by
-  refine deriv_of_formula _ _ _ _ ?_ ?_
+    HasDerivAt (fun t => evalT I (Function.update (envOf [a, x]) 1 t) f_gsl_sf_laguerre_1.value) (evalT I (envOf [a, x]) (f_gsl_sf_laguerre_1.d 1)) x := by
+  refine deriv_of_formula I _ _ _ _ ?_ ?_
   · simp [f_gsl_sf_laguerre_1, Formulas.d, Formulas.h, RExpr.inline, specE, RExpr.subst, Ok, eval, envOf, *]
   · simp [f_gsl_sf_laguerre_1, Formulas.d, Formulas.h, RExpr.inline, specE, RExpr.subst, eval, diff, envOf, *]
     try field_simp
@@ -345,8 +347,8 @@ theorem laguerre_1_d1 (a x : ℝ)  :
     all_goals (try simp)
 
 theorem laguerre_1_h0 (a x : ℝ)  :
-    HasDerivAt (fun t => evalT (Function.update (envOf [a, x]) 0 t) (f_gsl_sf_laguerre_1.d 0)) (evalT (envOf [a, x]) (f_gsl_sf_laguerre_1.h 0)) a := by
-  refine deriv_of_formula _ _ _ _ ?_ ?_
+    HasDerivAt (fun t => evalT I (Function.update (envOf [a, x]) 0 t) (f_gsl_sf_laguerre_1.d 0)) (evalT I (envOf [a, x]) (f_gsl_sf_laguerre_1.h 0)) a := by
+  refine deriv_of_formula I _ _ _ _ ?_ ?_
   · simp [f_gsl_sf_laguerre_1, Formulas.d, Formulas.h, RExpr.inline, specE, RExpr.subst, Ok, eval, envOf, *]
   · simp [f_gsl_sf_laguerre_1, Formulas.d, Formulas.h, RExpr.inline, specE, RExpr.subst, eval, diff, envOf, *]
     try field_simp
@@ -354,8 +356,8 @@ theorem laguerre_1_h0 (a x : ℝ)  :
     all_goals (try simp)
 
 theorem laguerre_1_h1 (a x : ℝ)  :
-    HasDerivAt (fun t => evalT (Function.update (envOf [a, x]) 1 t) (f_gsl_sf_laguerre_1.d 0)) (evalT (envOf [a, x]) (f_gsl_sf_laguerre_1.h 1)) x := by
-  refine deriv_of_formula _ _ _ _ ?_ ?_
+    HasDerivAt (fun t => evalT I (Function.update (envOf [a, x]) 1 t) (f_gsl_sf_laguerre_1.d 0)) (evalT I (envOf [a, x]) (f_gsl_sf_laguerre_1.h 1)) x := by
+  refine deriv_of_formula I _ _ _ _ ?_ ?_
   · simp [f_gsl_sf_laguerre_1, Formulas.d, Formulas.h, RExpr.inline, specE, RExpr.subst, Ok, eval, envOf, *]
   · simp [f_gsl_sf_laguerre_1, Formulas.d, Formulas.h, RExpr.inline, specE, RExpr.subst, eval, diff, envOf, *]
     try field_simp
@@ -363,8 +365,8 @@ theorem laguerre_1_h1 (a x : ℝ)  :
     all_goals (try simp)
 
 theorem laguerre_1_h2 (a x : ℝ)  :
-    HasDerivAt (fun t => evalT (Function.update (envOf [a, x]) 1 t) (f_gsl_sf_laguerre_1.d 1)) (evalT (envOf [a, x]) (f_gsl_sf_laguerre_1.h 2)) x := by
-  refine deriv_of_formula _ _ _ _ ?_ ?_
+    HasDerivAt (fun t => evalT I (Function.update (envOf [a, x]) 1 t) (f_gsl_sf_laguerre_1.d 1)) (evalT I (envOf [a, x]) (f_gsl_sf_laguerre_1.h 2)) x := by
+  refine deriv_of_formula I _ _ _ _ ?_ ?_
   · simp [f_gsl_sf_laguerre_1, Formulas.d, Formulas.h, RExpr.inline, specE, RExpr.subst, Ok, eval, envOf, *]
   · simp [f_gsl_sf_laguerre_1, Formulas.d, Formulas.h, RExpr.inline, specE, RExpr.subst, eval, diff, envOf, *]
     try field_simp
@@ -372,8 +374,8 @@ theorem laguerre_1_h2 (a x : ℝ)  :
     all_goals (try simp)
 
 theorem laguerre_2_d0 (a x : ℝ)  :
-    HasDerivAt (fun t => evalT (Function.update (envOf [a, x]) 0 t) f_gsl_sf_laguerre_2.value) (evalT (envOf [a, x]) (f_gsl_sf_laguerre_2.d 0)) a := by
-  refine deriv_of_formula _ _ _ _ ?_ ?_
+    HasDerivAt (fun t => evalT I (Function.update (envOf [a, x]) 0 t) f_gsl_sf_laguerre_2.value) (evalT I (envOf [a, x]) (f_gsl_sf_laguerre_2.d 0)) a := by
+  refine deriv_of_formula I _ _ _ _ ?_ ?_
   · simp [f_gsl_sf_laguerre_2, Formulas.d, Formulas.h, RExpr.inline, specE, RExpr.subst, Ok, eval, envOf, *]
   · simp [f_gsl_sf_laguerre_2, Formulas.d, Formulas.h, RExpr.inline, specE, RExpr.subst, eval, diff, envOf, *]
     try field_simp
@@ -381,8 +383,8 @@ theorem laguerre_2_d0 (a x : ℝ)  :
     all_goals (try simp)
 
 theorem laguerre_2_d1 (a x : ℝ)  :
-    HasDerivAt (fun t => evalT (Function.update (envOf [a, x]) 1 t) f_gsl_sf_laguerre_2.value) (evalT (envOf [a, x]) (f_gsl_sf_laguerre_2.d 1)) x := by
-  refine deriv_of_formula _ _ _ _ ?_ ?_
+    HasDerivAt (fun t => evalT I (Function.update (envOf [a, x]) 1 t) f_gsl_sf_laguerre_2.value) (evalT I (envOf [a, x]) (f_gsl_sf_laguerre_2.d 1)) x := by
+  refine deriv_of_formula I _ _ _ _ ?_ ?_
   · simp [f_gsl_sf_laguerre_2, Formulas.d, Formulas.h, RExpr.inline, specE, RExpr.subst, Ok, eval, envOf, *]
   · simp [f_gsl_sf_laguerre_2, Formulas.d, Formulas.h, RExpr.inline, specE, RExpr.subst, eval, diff, envOf, *]
     try field_simp
@@ -390,8 +392,8 @@ theorem laguerre_2_d1 (a x : ℝ)  :
     all_goals (try simp)
 
 theorem laguerre_2_h0 (a x : ℝ)  :
-    HasDerivAt (fun t => evalT (Function.update (envOf [a, x]) 0 t) (f_gsl_sf_laguerre_2.d 0)) (evalT (envOf [a, x]) (f_gsl_sf_laguerre_2.h 0)) a := by
-  refine deriv_of_formula _ _ _ _ ?_ ?_
+    HasDerivAt (fun t => evalT I (Function.update (envOf [a, x]) 0 t) (f_gsl_sf_laguerre_2.d 0)) (evalT I (envOf [a, x]) (f_gsl_sf_laguerre_2.h 0)) a := by
+  refine deriv_of_formula I _ _ _ _ ?_ ?_
   · simp [f_gsl_sf_laguerre_2, Formulas.d, Formulas.h, RExpr.inline, specE, RExpr.subst, Ok, eval, envOf, *]
   · simp [f_gsl_sf_laguerre_2, Formulas.d, Formulas.h, RExpr.inline, specE, RExpr.subst, eval, diff, envOf, *]
     try field_simp
@@ -399,8 +401,8 @@ theorem laguerre_2_h0 (a x : ℝ)  :
     all_goals (try simp)
 
 theorem laguerre_2_h1 (a x : ℝ)  :
-    HasDerivAt (fun t => evalT (Function.update (envOf [a, x]) 1 t) (f_gsl_sf_laguerre_2.d 0)) (evalT (envOf [a, x]) (f_gsl_sf_laguerre_2.h 1)) x := by
-  refine deriv_of_formula _ _ _ _ ?_ ?_
+    HasDerivAt (fun t => evalT I (Function.update (envOf [a, x]) 1 t) (f_gsl_sf_laguerre_2.d 0)) (evalT I (envOf [a, x]) (f_gsl_sf_laguerre_2.h 1)) x := by
+  refine deriv_of_formula I _ _ _ _ ?_ ?_
   · simp [f_gsl_sf_laguerre_2, Formulas.d, Formulas.h, RExpr.inline, specE, RExpr.subst, Ok, eval, envOf, *]
   · simp [f_gsl_sf_laguerre_2, Formulas.d, Formulas.h, RExpr.inline, specE, RExpr.subst, eval, diff, envOf, *]
     try field_simp
@@ -408,8 +410,8 @@ theorem laguerre_2_h1 (a x : ℝ)  :
     all_goals (try simp)
 
 theorem laguerre_2_h2 (a x : ℝ)  :
-    HasDerivAt (fun t => evalT (Function.update (envOf [a, x]) 1 t) (f_gsl_sf_laguerre_2.d 1)) (evalT (envOf [a, x]) (f_gsl_sf_laguerre_2.h 2)) x := by
-  refine deriv_of_formula _ _ _ _ ?_ ?_
+    HasDerivAt (fun t => evalT I (Function.update (envOf [a, x]) 1 t) (f_gsl_sf_laguerre_2.d 1)) (evalT I (envOf [a, x]) (f_gsl_sf_laguerre_2.h 2)) x := by
+  refine deriv_of_formula I _ _ _ _ ?_ ?_
   · simp [f_gsl_sf_laguerre_2, Formulas.d, Formulas.h, RExpr.inline, specE, RExpr.subst, Ok, eval, envOf, *]
   · simp [f_gsl_sf_laguerre_2, Formulas.d, Formulas.h, RExpr.inline, specE, RExpr.subst, eval, diff, envOf, *]
     try field_simp
@@ -417,8 +419,8 @@ theorem laguerre_2_h2 (a x : ℝ)  :
     all_goals (try simp)
 
 theorem laguerre_3_d0 (a x : ℝ)  :
-    HasDerivAt (fun t => evalT (Function.update (envOf [a, x]) 0 t) f_gsl_sf_laguerre_3.value) (evalT (envOf [a, x]) (f_gsl_sf_laguerre_3.d 0)) a := by
-  refine deriv_of_formula _ _ _ _ ?_ ?_
+    HasDerivAt (fun t => evalT I (Function.update (envOf [a, x]) 0 t) f_gsl_sf_laguerre_3.value) (evalT I (envOf [a, x]) (f_gsl_sf_laguerre_3.d 0)) a := by
+  refine deriv_of_formula I _ _ _ _ ?_ ?_
   · simp [f_gsl_sf_laguerre_3, Formulas.d, Formulas.h, RExpr.inline, specE, RExpr.subst, Ok, eval, envOf, *]
   · simp [f_gsl_sf_laguerre_3, Formulas.d, Formulas.h, RExpr.inline, specE, RExpr.subst, eval, diff, envOf, *]
     try field_simp
@@ -426,8 +428,8 @@ theorem laguerre_3_d0 (a x : ℝ)  :
     all_goals (try simp)
 
 theorem laguerre_3_d1 (a x : ℝ)  :
-    HasDerivAt (fun t => evalT (Function.update (envOf [a, x]) 1 t) f_gsl_sf_laguerre_3.value) (evalT (envOf [a, x]) (f_gsl_sf_laguerre_3.d 1)) x := by
-  refine deriv_of_formula _ _ _ _ ?_ ?_
+    HasDerivAt (fun t => evalT I (Function.update (envOf [a, x]) 1 t) f_gsl_sf_laguerre_3.value) (evalT I (envOf [a, x]) (f_gsl_sf_laguerre_3.d 1)) x := by
+  refine deriv_of_formula I _ _ _ _ ?_ ?_
   · simp [f_gsl_sf_laguerre_3, Formulas.d, Formulas.h, RExpr.inline, specE, RExpr.subst, Ok, eval, envOf, *]
   · simp [f_gsl_sf_laguerre_3, Formulas.d, Formulas.h, RExpr.inline, specE, RExpr.subst, eval, diff, envOf, *]
     try field_simp
@@ -435,8 +437,8 @@ theorem laguerre_3_d1 (a x : ℝ)  :
     all_goals (try simp)
 
 theorem laguerre_3_h0 (a x : ℝ)  :
-    HasDerivAt (fun t => evalT (Function.update (envOf [a, x]) 0 t) (f_gsl_sf_laguerre_3.d 0)) (evalT (envOf [a, x]) (f_gsl_sf_laguerre_3.h 0)) a := by
-  refine deriv_of_formula _ _ _ _ ?_ ?_
+    HasDerivAt (fun t => evalT I (Function.update (envOf [a, x]) 0 t) (f_gsl_sf_laguerre_3.d 0)) (evalT I (envOf [a, x]) (f_gsl_sf_laguerre_3.h 0)) a := by
+  refine deriv_of_formula I _ _ _ _ ?_ ?_
   · simp [f_gsl_sf_laguerre_3, Formulas.d, Formulas.h, RExpr.inline, specE, RExpr.subst, Ok, eval, envOf, *]
   · simp [f_gsl_sf_laguerre_3, Formulas.d, Formulas.h, RExpr.inline, specE, RExpr.subst, eval, diff, envOf, *]
     try field_simp
@@ -444,8 +446,8 @@ theorem laguerre_3_h0 (a x : ℝ)  :
     all_goals (try simp)
 
 theorem laguerre_3_h1 (a x : ℝ)  :
-    HasDerivAt (fun t => evalT (Function.update (envOf [a, x]) 1 t) (f_gsl_sf_laguerre_3.d 0)) (evalT (envOf [a, x]) (f_gsl_sf_laguerre_3.h 1)) x := by
-  refine deriv_of_formula _ _ _ _ ?_ ?_
+    HasDerivAt (fun t => evalT I (Function.update (envOf [a, x]) 1 t) (f_gsl_sf_laguerre_3.d 0)) (evalT I (envOf [a, x]) (f_gsl_sf_laguerre_3.h 1)) x := by
+  refine deriv_of_formula I _ _ _ _ ?_ ?_
   · simp [f_gsl_sf_laguerre_3, Formulas.d, Formulas.h, RExpr.inline, specE, RExpr.subst, Ok, eval, envOf, *]
   · simp [f_gsl_sf_laguerre_3, Formulas.d, Formulas.h, RExpr.inline, specE, RExpr.subst, eval, diff, envOf, *]
     try field_simp
@@ -453,8 +455,8 @@ theorem laguerre_3_h1 (a x : ℝ)  :
     all_goals (try simp)
 
 theorem laguerre_3_h2 (a x : ℝ)  :
-    HasDerivAt (fun t => evalT (Function.update (envOf [a, x]) 1 t) (f_gsl_sf_laguerre_3.d 1)) (evalT (envOf [a, x]) (f_gsl_sf_laguerre_3.h 2)) x := by
-  refine deriv_of_formula _ _ _ _ ?_ ?_
+    HasDerivAt (fun t => evalT I (Function.update (envOf [a, x]) 1 t) (f_gsl_sf_laguerre_3.d 1)) (evalT I (envOf [a, x]) (f_gsl_sf_laguerre_3.h 2)) x := by
+  refine deriv_of_formula I _ _ _ _ ?_ ?_
   · simp [f_gsl_sf_laguerre_3, Formulas.d, Formulas.h, RExpr.inline, specE, RExpr.subst, Ok, eval, envOf, *]
   · simp [f_gsl_sf_laguerre_3, Formulas.d, Formulas.h, RExpr.inline, specE, RExpr.subst, eval, diff, envOf, *]
     try field_simp
@@ -462,10 +464,10 @@ theorem laguerre_3_h2 (a x : ℝ)  :
     all_goals (try simp)
 
 theorem fermi_dirac_m1_d0 (x : ℝ)  :
-    HasDerivAt (fun t => evalT (Function.update (envOf [x]) 0 t) f_gsl_sf_fermi_dirac_m1.value) (evalT (envOf [x]) (f_gsl_sf_fermi_dirac_m1.d 0)) x := by
+    HasDerivAt (fun t => evalT I (Function.update (envOf [x]) 0 t) f_gsl_sf_fermi_dirac_m1.value) (evalT I (envOf [x]) (f_gsl_sf_fermi_dirac_m1.d 0)) x := by
   have he1 : 1 + Real.exp x ≠ 0 := by positivity
   have he2 : Real.exp x + 1 ≠ 0 := by positivity
-  refine deriv_of_formula _ _ _ _ ?_ ?_
+  refine deriv_of_formula I _ _ _ _ ?_ ?_
   · simp [f_gsl_sf_fermi_dirac_m1, Formulas.d, Formulas.h, RExpr.inline, specE, RExpr.subst, Ok, eval, envOf, *]
   · simp [f_gsl_sf_fermi_dirac_m1, Formulas.d, Formulas.h, RExpr.inline, specE, RExpr.subst, eval, diff, envOf, *]
     try field_simp
@@ -473,10 +475,10 @@ theorem fermi_dirac_m1_d0 (x : ℝ)  :
     all_goals (try simp)
 
 theorem fermi_dirac_m1_h0 (x : ℝ)  :
-    HasDerivAt (fun t => evalT (Function.update (envOf [x]) 0 t) (f_gsl_sf_fermi_dirac_m1.d 0)) (evalT (envOf [x]) (f_gsl_sf_fermi_dirac_m1.h 0)) x := by
+    HasDerivAt (fun t => evalT I (Function.update (envOf [x]) 0 t) (f_gsl_sf_fermi_dirac_m1.d 0)) (evalT I (envOf [x]) (f_gsl_sf_fermi_dirac_m1.h 0)) x := by
   have he1 : 1 + Real.exp x ≠ 0 := by positivity
   have he2 : Real.exp x + 1 ≠ 0 := by positivity
-  refine deriv_of_formula _ _ _ _ ?_ ?_
+  refine deriv_of_formula I _ _ _ _ ?_ ?_
   · simp [f_gsl_sf_fermi_dirac_m1, Formulas.d, Formulas.h, RExpr.inline, specE, RExpr.subst, Ok, eval, envOf, *]
   · simp [f_gsl_sf_fermi_dirac_m1, Formulas.d, Formulas.h, RExpr.inline, specE, RExpr.subst, eval, diff, envOf, *]
     try field_simp
@@ -484,10 +486,10 @@ theorem fermi_dirac_m1_h0 (x : ℝ)  :
     all_goals (try simp)
 
 theorem fermi_dirac_0_d0 (x : ℝ)  :
-    HasDerivAt (fun t => evalT (Function.update (envOf [x]) 0 t) f_gsl_sf_fermi_dirac_0.value) (evalT (envOf [x]) (f_gsl_sf_fermi_dirac_0.d 0)) x := by
+    HasDerivAt (fun t => evalT I (Function.update (envOf [x]) 0 t) f_gsl_sf_fermi_dirac_0.value) (evalT I (envOf [x]) (f_gsl_sf_fermi_dirac_0.d 0)) x := by
   have he1 : 1 + Real.exp x ≠ 0 := by positivity
   have he2 : Real.exp x + 1 ≠ 0 := by positivity
-  refine deriv_of_formula _ _ _ _ ?_ ?_
+  refine deriv_of_formula I _ _ _ _ ?_ ?_
   · simp [f_gsl_sf_fermi_dirac_0, Formulas.d, Formulas.h, RExpr.inline, specE, RExpr.subst, Ok, eval, envOf, *]
   · simp [f_gsl_sf_fermi_dirac_0, Formulas.d, Formulas.h, RExpr.inline, specE, RExpr.subst, eval, diff, envOf, *]
     try field_simp
@@ -495,10 +497,10 @@ theorem fermi_dirac_0_d0 (x : ℝ)  :
     all_goals (try simp)
 
 theorem fermi_dirac_0_h0 (x : ℝ)  :
-    HasDerivAt (fun t => evalT (Function.update (envOf [x]) 0 t) (f_gsl_sf_fermi_dirac_0.d 0)) (evalT (envOf [x]) (f_gsl_sf_fermi_dirac_0.h 0)) x := by
+    HasDerivAt (fun t => evalT I (Function.update (envOf [x]) 0 t) (f_gsl_sf_fermi_dirac_0.d 0)) (evalT I (envOf [x]) (f_gsl_sf_fermi_dirac_0.h 0)) x := by
   have he1 : 1 + Real.exp x ≠ 0 := by positivity
   have he2 : Real.exp x + 1 ≠ 0 := by positivity
-  refine deriv_of_formula _ _ _ _ ?_ ?_
+  refine deriv_of_formula I _ _ _ _ ?_ ?_
   · simp [f_gsl_sf_fermi_dirac_0, Formulas.d, Formulas.h, RExpr.inline, specE, RExpr.subst, Ok, eval, envOf, *]
   · simp [f_gsl_sf_fermi_dirac_0, Formulas.d, Formulas.h, RExpr.inline, specE, RExpr.subst, eval, diff, envOf, *]
     try field_simp
@@ -506,8 +508,8 @@ theorem fermi_dirac_0_h0 (x : ℝ)  :
     all_goals (try simp)
 
 theorem bessel_j0_d0 (x : ℝ) (hx : x ≠ 0) :
-    HasDerivAt (fun t => evalT (Function.update (envOf [x]) 0 t) f_gsl_sf_bessel_j0.value) (evalT (envOf [x]) (f_gsl_sf_bessel_j0.d 0)) x := by
-  refine deriv_of_formula _ _ _ _ ?_ ?_
+    HasDerivAt (fun t => evalT I (Function.update (envOf [x]) 0 t) f_gsl_sf_bessel_j0.value) (evalT I (envOf [x]) (f_gsl_sf_bessel_j0.d 0)) x := by
+  refine deriv_of_formula I _ _ _ _ ?_ ?_
   · simp [f_gsl_sf_bessel_j0, Formulas.d, Formulas.h, RExpr.inline, specE, RExpr.subst, Ok, eval, envOf, *]
   · simp [f_gsl_sf_bessel_j0, Formulas.d, Formulas.h, RExpr.inline, specE, RExpr.subst, eval, diff, envOf, *]
     try field_simp
@@ -515,8 +517,8 @@ theorem bessel_j0_d0 (x : ℝ) (hx : x ≠ 0) :
     all_goals (try simp)
 
 theorem bessel_j0_h0 (x : ℝ) (hx : x ≠ 0) :
-    HasDerivAt (fun t => evalT (Function.update (envOf [x]) 0 t) (f_gsl_sf_bessel_j0.d 0)) (evalT (envOf [x]) (f_gsl_sf_bessel_j0.h 0)) x := by
-  refine deriv_of_formula _ _ _ _ ?_ ?_
+    HasDerivAt (fun t => evalT I (Function.update (envOf [x]) 0 t) (f_gsl_sf_bessel_j0.d 0)) (evalT I (envOf [x]) (f_gsl_sf_bessel_j0.h 0)) x := by
+  refine deriv_of_formula I _ _ _ _ ?_ ?_
   · simp [f_gsl_sf_bessel_j0, Formulas.d, Formulas.h, RExpr.inline, specE, RExpr.subst, Ok, eval, envOf, *]
   · simp [f_gsl_sf_bessel_j0, Formulas.d, Formulas.h, RExpr.inline, specE, RExpr.subst, eval, diff, envOf, *]
     try field_simp
@@ -524,8 +526,8 @@ theorem bessel_j0_h0 (x : ℝ) (hx : x ≠ 0) :
     all_goals (try simp)
 
 theorem bessel_y0_d0 (x : ℝ) (hx : x ≠ 0) :
-    HasDerivAt (fun t => evalT (Function.update (envOf [x]) 0 t) f_gsl_sf_bessel_y0.value) (evalT (envOf [x]) (f_gsl_sf_bessel_y0.d 0)) x := by
-  refine deriv_of_formula _ _ _ _ ?_ ?_
+    HasDerivAt (fun t => evalT I (Function.update (envOf [x]) 0 t) f_gsl_sf_bessel_y0.value) (evalT I (envOf [x]) (f_gsl_sf_bessel_y0.d 0)) x := by
+  refine deriv_of_formula I _ _ _ _ ?_ ?_
   · simp [f_gsl_sf_bessel_y0, Formulas.d, Formulas.h, RExpr.inline, specE, RExpr.subst, Ok, eval, envOf, *]
   · simp [f_gsl_sf_bessel_y0, Formulas.d, Formulas.h, RExpr.inline, specE, RExpr.subst, eval, diff, envOf, *]
     try field_simp
@@ -533,8 +535,8 @@ theorem bessel_y0_d0 (x : ℝ) (hx : x ≠ 0) :
     all_goals (try simp)
 
 theorem bessel_y0_h0 (x : ℝ) (hx : x ≠ 0) :
-    HasDerivAt (fun t => evalT (Function.update (envOf [x]) 0 t) (f_gsl_sf_bessel_y0.d 0)) (evalT (envOf [x]) (f_gsl_sf_bessel_y0.h 0)) x := by
-  refine deriv_of_formula _ _ _ _ ?_ ?_
+    HasDerivAt (fun t => evalT I (Function.update (envOf [x]) 0 t) (f_gsl_sf_bessel_y0.d 0)) (evalT I (envOf [x]) (f_gsl_sf_bessel_y0.h 0)) x := by
+  refine deriv_of_formula I _ _ _ _ ?_ ?_
   · simp [f_gsl_sf_bessel_y0, Formulas.d, Formulas.h, RExpr.inline, specE, RExpr.subst, Ok, eval, envOf, *]
   · simp [f_gsl_sf_bessel_y0, Formulas.d, Formulas.h, RExpr.inline, specE, RExpr.subst, eval, diff, envOf, *]
     try field_simp
@@ -543,8 +545,8 @@ theorem bessel_y0_h0 (x : ℝ) (hx : x ≠ 0) :
 
 
 theorem log1p_h0 (x : ℝ) (hx : x + 1 ≠ 0) :
-    HasDerivAt (fun t => evalT (Function.update (envOf [x]) 0 t) (f_gsl_log1p.d 0)) (evalT (envOf [x]) (f_gsl_log1p.h 0)) x := by
-  refine deriv_of_formula _ _ _ _ ?_ ?_
+    HasDerivAt (fun t => evalT I (Function.update (envOf [x]) 0 t) (f_gsl_log1p.d 0)) (evalT I (envOf [x]) (f_gsl_log1p.h 0)) x := by
+  refine deriv_of_formula I _ _ _ _ ?_ ?_
   · simp [f_gsl_log1p, Formulas.d, Formulas.h, RExpr.inline, specE, RExpr.subst, Ok, eval, envOf, *]
   · simp [f_gsl_log1p, Formulas.d, Formulas.h, RExpr.inline, specE, RExpr.subst, eval, diff, envOf, *]
     try field_simp
@@ -554,123 +556,658 @@ theorem log1p_h0 (x : ℝ) (hx : x + 1 ≠ 0) :
 /-! ### hypot and hypot3: the generated terms denote exactly the functions of `Deriv.lean`, whose theorems transfer -/
 
 theorem hypot_d0 (x y : ℝ) (hpos : 0 < x ^ 2 + y ^ 2) :
-    HasDerivAt (fun t => evalT (Function.update (envOf [x, y]) 0 t) (f_gsl_hypot.value)) (evalT (envOf [x, y]) (f_gsl_hypot.d 0)) x := by
+    HasDerivAt (fun t => evalT I (Function.update (envOf [x, y]) 0 t) (f_gsl_hypot.value)) (evalT I (envOf [x, y]) (f_gsl_hypot.d 0)) x := by
   have h := Deriv.hypot_dx x y hpos
-  have ef : (fun t => evalT (Function.update (envOf [x, y]) 0 t) (f_gsl_hypot.value)) = (fun t => Deriv.hyp t y) := by
+  have ef : (fun t => evalT I (Function.update (envOf [x, y]) 0 t) (f_gsl_hypot.value)) = (fun t => Deriv.hyp t y) := by
     funext t; simp [evalT, f_gsl_hypot, Formulas.d, Formulas.h, RExpr.inline, specE, RExpr.subst, eval, envOf, Function.update, Deriv.hyp, Deriv.hypotD0, Deriv.hypotD1, Deriv.hypotH0, Deriv.hypotH1, Deriv.hypotH2, pow_two]
   rw [ef]
   exact h.congr_deriv (by simp [evalT, f_gsl_hypot, Formulas.d, Formulas.h, RExpr.inline, specE, RExpr.subst, eval, envOf, Function.update, Deriv.hyp, Deriv.hypotD0, Deriv.hypotD1, Deriv.hypotH0, Deriv.hypotH1, Deriv.hypotH2, pow_two])
 
 theorem hypot_d1 (x y : ℝ) (hpos : 0 < x ^ 2 + y ^ 2) :
-    HasDerivAt (fun t => evalT (Function.update (envOf [x, y]) 1 t) (f_gsl_hypot.value)) (evalT (envOf [x, y]) (f_gsl_hypot.d 1)) y := by
+    HasDerivAt (fun t => evalT I (Function.update (envOf [x, y]) 1 t) (f_gsl_hypot.value)) (evalT I (envOf [x, y]) (f_gsl_hypot.d 1)) y := by
   have h := Deriv.hypot_dy x y hpos
-  have ef : (fun t => evalT (Function.update (envOf [x, y]) 1 t) (f_gsl_hypot.value)) = (fun s => Deriv.hyp x s) := by
+  have ef : (fun t => evalT I (Function.update (envOf [x, y]) 1 t) (f_gsl_hypot.value)) = (fun s => Deriv.hyp x s) := by
     funext t; simp [evalT, f_gsl_hypot, Formulas.d, Formulas.h, RExpr.inline, specE, RExpr.subst, eval, envOf, Function.update, Deriv.hyp, Deriv.hypotD0, Deriv.hypotD1, Deriv.hypotH0, Deriv.hypotH1, Deriv.hypotH2, pow_two]
   rw [ef]
   exact h.congr_deriv (by simp [evalT, f_gsl_hypot, Formulas.d, Formulas.h, RExpr.inline, specE, RExpr.subst, eval, envOf, Function.update, Deriv.hyp, Deriv.hypotD0, Deriv.hypotD1, Deriv.hypotH0, Deriv.hypotH1, Deriv.hypotH2, pow_two])
 
 theorem hypot_h0 (x y : ℝ) (hpos : 0 < x ^ 2 + y ^ 2) :
-    HasDerivAt (fun t => evalT (Function.update (envOf [x, y]) 0 t) (f_gsl_hypot.d 0)) (evalT (envOf [x, y]) (f_gsl_hypot.h 0)) x := by
+    HasDerivAt (fun t => evalT I (Function.update (envOf [x, y]) 0 t) (f_gsl_hypot.d 0)) (evalT I (envOf [x, y]) (f_gsl_hypot.h 0)) x := by
   have h := Deriv.hypot_hes0 x y hpos
-  have ef : (fun t => evalT (Function.update (envOf [x, y]) 0 t) (f_gsl_hypot.d 0)) = (fun t => Deriv.hypotD0 t y) := by
+  have ef : (fun t => evalT I (Function.update (envOf [x, y]) 0 t) (f_gsl_hypot.d 0)) = (fun t => Deriv.hypotD0 t y) := by
     funext t; simp [evalT, f_gsl_hypot, Formulas.d, Formulas.h, RExpr.inline, specE, RExpr.subst, eval, envOf, Function.update, Deriv.hyp, Deriv.hypotD0, Deriv.hypotD1, Deriv.hypotH0, Deriv.hypotH1, Deriv.hypotH2, pow_two]
   rw [ef]
   exact h.congr_deriv (by simp [evalT, f_gsl_hypot, Formulas.d, Formulas.h, RExpr.inline, specE, RExpr.subst, eval, envOf, Function.update, Deriv.hyp, Deriv.hypotD0, Deriv.hypotD1, Deriv.hypotH0, Deriv.hypotH1, Deriv.hypotH2, pow_two])
 
 theorem hypot_h1 (x y : ℝ) (hpos : 0 < x ^ 2 + y ^ 2) :
-    HasDerivAt (fun t => evalT (Function.update (envOf [x, y]) 1 t) (f_gsl_hypot.d 0)) (evalT (envOf [x, y]) (f_gsl_hypot.h 1)) y := by
+    HasDerivAt (fun t => evalT I (Function.update (envOf [x, y]) 1 t) (f_gsl_hypot.d 0)) (evalT I (envOf [x, y]) (f_gsl_hypot.h 1)) y := by
   have h := Deriv.hypot_hes1 x y hpos
-  have ef : (fun t => evalT (Function.update (envOf [x, y]) 1 t) (f_gsl_hypot.d 0)) = (fun s => Deriv.hypotD0 x s) := by
+  have ef : (fun t => evalT I (Function.update (envOf [x, y]) 1 t) (f_gsl_hypot.d 0)) = (fun s => Deriv.hypotD0 x s) := by
     funext t; simp [evalT, f_gsl_hypot, Formulas.d, Formulas.h, RExpr.inline, specE, RExpr.subst, eval, envOf, Function.update, Deriv.hyp, Deriv.hypotD0, Deriv.hypotD1, Deriv.hypotH0, Deriv.hypotH1, Deriv.hypotH2, pow_two]
   rw [ef]
   exact h.congr_deriv (by simp [evalT, f_gsl_hypot, Formulas.d, Formulas.h, RExpr.inline, specE, RExpr.subst, eval, envOf, Function.update, Deriv.hyp, Deriv.hypotD0, Deriv.hypotD1, Deriv.hypotH0, Deriv.hypotH1, Deriv.hypotH2, pow_two])
 
 theorem hypot_h1_sym (x y : ℝ) (hpos : 0 < x ^ 2 + y ^ 2) :
-    HasDerivAt (fun t => evalT (Function.update (envOf [x, y]) 0 t) (f_gsl_hypot.d 1)) (evalT (envOf [x, y]) (f_gsl_hypot.h 1)) x := by
+    HasDerivAt (fun t => evalT I (Function.update (envOf [x, y]) 0 t) (f_gsl_hypot.d 1)) (evalT I (envOf [x, y]) (f_gsl_hypot.h 1)) x := by
   have h := Deriv.hypot_hes1' x y hpos
-  have ef : (fun t => evalT (Function.update (envOf [x, y]) 0 t) (f_gsl_hypot.d 1)) = (fun t => Deriv.hypotD1 t y) := by
+  have ef : (fun t => evalT I (Function.update (envOf [x, y]) 0 t) (f_gsl_hypot.d 1)) = (fun t => Deriv.hypotD1 t y) := by
     funext t; simp [evalT, f_gsl_hypot, Formulas.d, Formulas.h, RExpr.inline, specE, RExpr.subst, eval, envOf, Function.update, Deriv.hyp, Deriv.hypotD0, Deriv.hypotD1, Deriv.hypotH0, Deriv.hypotH1, Deriv.hypotH2, pow_two]
   rw [ef]
   exact h.congr_deriv (by simp [evalT, f_gsl_hypot, Formulas.d, Formulas.h, RExpr.inline, specE, RExpr.subst, eval, envOf, Function.update, Deriv.hyp, Deriv.hypotD0, Deriv.hypotD1, Deriv.hypotH0, Deriv.hypotH1, Deriv.hypotH2, pow_two])
 
 theorem hypot_h2 (x y : ℝ) (hpos : 0 < x ^ 2 + y ^ 2) :
-    HasDerivAt (fun t => evalT (Function.update (envOf [x, y]) 1 t) (f_gsl_hypot.d 1)) (evalT (envOf [x, y]) (f_gsl_hypot.h 2)) y := by
+    HasDerivAt (fun t => evalT I (Function.update (envOf [x, y]) 1 t) (f_gsl_hypot.d 1)) (evalT I (envOf [x, y]) (f_gsl_hypot.h 2)) y := by
   have h := Deriv.hypot_hes2 x y hpos
-  have ef : (fun t => evalT (Function.update (envOf [x, y]) 1 t) (f_gsl_hypot.d 1)) = (fun s => Deriv.hypotD1 x s) := by
+  have ef : (fun t => evalT I (Function.update (envOf [x, y]) 1 t) (f_gsl_hypot.d 1)) = (fun s => Deriv.hypotD1 x s) := by
     funext t; simp [evalT, f_gsl_hypot, Formulas.d, Formulas.h, RExpr.inline, specE, RExpr.subst, eval, envOf, Function.update, Deriv.hyp, Deriv.hypotD0, Deriv.hypotD1, Deriv.hypotH0, Deriv.hypotH1, Deriv.hypotH2, pow_two]
   rw [ef]
   exact h.congr_deriv (by simp [evalT, f_gsl_hypot, Formulas.d, Formulas.h, RExpr.inline, specE, RExpr.subst, eval, envOf, Function.update, Deriv.hyp, Deriv.hypotD0, Deriv.hypotD1, Deriv.hypotH0, Deriv.hypotH1, Deriv.hypotH2, pow_two])
 
 theorem hypot3_d0 (x y z : ℝ) (hpos : 0 < x ^ 2 + y ^ 2 + z ^ 2) :
-    HasDerivAt (fun t => evalT (Function.update (envOf [x, y, z]) 0 t) (f_gsl_hypot3.value)) (evalT (envOf [x, y, z]) (f_gsl_hypot3.d 0)) x := by
+    HasDerivAt (fun t => evalT I (Function.update (envOf [x, y, z]) 0 t) (f_gsl_hypot3.value)) (evalT I (envOf [x, y, z]) (f_gsl_hypot3.d 0)) x := by
   have h := Deriv.hypot3_dx x y z hpos
-  have ef : (fun t => evalT (Function.update (envOf [x, y, z]) 0 t) (f_gsl_hypot3.value)) = (fun t => Deriv.hyp3 t y z) := by
+  have ef : (fun t => evalT I (Function.update (envOf [x, y, z]) 0 t) (f_gsl_hypot3.value)) = (fun t => Deriv.hyp3 t y z) := by
     funext t; simp [evalT, f_gsl_hypot3, Formulas.d, Formulas.h, RExpr.inline, specE, RExpr.subst, eval, envOf, Function.update, Deriv.hyp3, Deriv.h3Dx, Deriv.h3Dy, Deriv.h3Dz, Deriv.hypot3Hes, pow_two]
   rw [ef]
   exact h.congr_deriv (by simp [evalT, f_gsl_hypot3, Formulas.d, Formulas.h, RExpr.inline, specE, RExpr.subst, eval, envOf, Function.update, Deriv.hyp3, Deriv.h3Dx, Deriv.h3Dy, Deriv.h3Dz, Deriv.hypot3Hes, pow_two])
 
 theorem hypot3_d1 (x y z : ℝ) (hpos : 0 < x ^ 2 + y ^ 2 + z ^ 2) :
-    HasDerivAt (fun t => evalT (Function.update (envOf [x, y, z]) 1 t) (f_gsl_hypot3.value)) (evalT (envOf [x, y, z]) (f_gsl_hypot3.d 1)) y := by
+    HasDerivAt (fun t => evalT I (Function.update (envOf [x, y, z]) 1 t) (f_gsl_hypot3.value)) (evalT I (envOf [x, y, z]) (f_gsl_hypot3.d 1)) y := by
   have h := Deriv.hypot3_dy x y z hpos
-  have ef : (fun t => evalT (Function.update (envOf [x, y, z]) 1 t) (f_gsl_hypot3.value)) = (fun s => Deriv.hyp3 x s z) := by
+  have ef : (fun t => evalT I (Function.update (envOf [x, y, z]) 1 t) (f_gsl_hypot3.value)) = (fun s => Deriv.hyp3 x s z) := by
     funext t; simp [evalT, f_gsl_hypot3, Formulas.d, Formulas.h, RExpr.inline, specE, RExpr.subst, eval, envOf, Function.update, Deriv.hyp3, Deriv.h3Dx, Deriv.h3Dy, Deriv.h3Dz, Deriv.hypot3Hes, pow_two]
   rw [ef]
   exact h.congr_deriv (by simp [evalT, f_gsl_hypot3, Formulas.d, Formulas.h, RExpr.inline, specE, RExpr.subst, eval, envOf, Function.update, Deriv.hyp3, Deriv.h3Dx, Deriv.h3Dy, Deriv.h3Dz, Deriv.hypot3Hes, pow_two])
 
 theorem hypot3_d2 (x y z : ℝ) (hpos : 0 < x ^ 2 + y ^ 2 + z ^ 2) :
-    HasDerivAt (fun t => evalT (Function.update (envOf [x, y, z]) 2 t) (f_gsl_hypot3.value)) (evalT (envOf [x, y, z]) (f_gsl_hypot3.d 2)) z := by
+    HasDerivAt (fun t => evalT I (Function.update (envOf [x, y, z]) 2 t) (f_gsl_hypot3.value)) (evalT I (envOf [x, y, z]) (f_gsl_hypot3.d 2)) z := by
   have h := Deriv.hypot3_dz x y z hpos
-  have ef : (fun t => evalT (Function.update (envOf [x, y, z]) 2 t) (f_gsl_hypot3.value)) = (fun u => Deriv.hyp3 x y u) := by
+  have ef : (fun t => evalT I (Function.update (envOf [x, y, z]) 2 t) (f_gsl_hypot3.value)) = (fun u => Deriv.hyp3 x y u) := by
     funext t; simp [evalT, f_gsl_hypot3, Formulas.d, Formulas.h, RExpr.inline, specE, RExpr.subst, eval, envOf, Function.update, Deriv.hyp3, Deriv.h3Dx, Deriv.h3Dy, Deriv.h3Dz, Deriv.hypot3Hes, pow_two]
   rw [ef]
   exact h.congr_deriv (by simp [evalT, f_gsl_hypot3, Formulas.d, Formulas.h, RExpr.inline, specE, RExpr.subst, eval, envOf, Function.update, Deriv.hyp3, Deriv.h3Dx, Deriv.h3Dy, Deriv.h3Dz, Deriv.hypot3Hes, pow_two])
 
 theorem hypot3_h0_xx (x y z : ℝ) (hpos : 0 < x ^ 2 + y ^ 2 + z ^ 2) :
-    HasDerivAt (fun t => evalT (Function.update (envOf [x, y, z]) 0 t) (f_gsl_hypot3.d 0)) (evalT (envOf [x, y, z]) (f_gsl_hypot3.h 0)) x := by
+    HasDerivAt (fun t => evalT I (Function.update (envOf [x, y, z]) 0 t) (f_gsl_hypot3.d 0)) (evalT I (envOf [x, y, z]) (f_gsl_hypot3.h 0)) x := by
   have h := Deriv.hypot3_hes_xx x y z hpos
-  have ef : (fun t => evalT (Function.update (envOf [x, y, z]) 0 t) (f_gsl_hypot3.d 0)) = (fun t => Deriv.h3Dx t y z) := by
+  have ef : (fun t => evalT I (Function.update (envOf [x, y, z]) 0 t) (f_gsl_hypot3.d 0)) = (fun t => Deriv.h3Dx t y z) := by
     funext t; simp [evalT, f_gsl_hypot3, Formulas.d, Formulas.h, RExpr.inline, specE, RExpr.subst, eval, envOf, Function.update, Deriv.hyp3, Deriv.h3Dx, Deriv.h3Dy, Deriv.h3Dz, Deriv.hypot3Hes, pow_two]
   rw [ef]
   exact h.congr_deriv (by simp [evalT, f_gsl_hypot3, Formulas.d, Formulas.h, RExpr.inline, specE, RExpr.subst, eval, envOf, Function.update, Deriv.hyp3, Deriv.h3Dx, Deriv.h3Dy, Deriv.h3Dz, Deriv.hypot3Hes, pow_two])
 
 theorem hypot3_h1_xy (x y z : ℝ) (hpos : 0 < x ^ 2 + y ^ 2 + z ^ 2) :
-    HasDerivAt (fun t => evalT (Function.update (envOf [x, y, z]) 1 t) (f_gsl_hypot3.d 0)) (evalT (envOf [x, y, z]) (f_gsl_hypot3.h 1)) y := by
+    HasDerivAt (fun t => evalT I (Function.update (envOf [x, y, z]) 1 t) (f_gsl_hypot3.d 0)) (evalT I (envOf [x, y, z]) (f_gsl_hypot3.h 1)) y := by
   have h := Deriv.hypot3_hes_xy x y z hpos
-  have ef : (fun t => evalT (Function.update (envOf [x, y, z]) 1 t) (f_gsl_hypot3.d 0)) = (fun s => Deriv.h3Dx x s z) := by
+  have ef : (fun t => evalT I (Function.update (envOf [x, y, z]) 1 t) (f_gsl_hypot3.d 0)) = (fun s => Deriv.h3Dx x s z) := by
     funext t; simp [evalT, f_gsl_hypot3, Formulas.d, Formulas.h, RExpr.inline, specE, RExpr.subst, eval, envOf, Function.update, Deriv.hyp3, Deriv.h3Dx, Deriv.h3Dy, Deriv.h3Dz, Deriv.hypot3Hes, pow_two]
   rw [ef]
   exact h.congr_deriv (by simp [evalT, f_gsl_hypot3, Formulas.d, Formulas.h, RExpr.inline, specE, RExpr.subst, eval, envOf, Function.update, Deriv.hyp3, Deriv.h3Dx, Deriv.h3Dy, Deriv.h3Dz, Deriv.hypot3Hes, pow_two])
 
 theorem hypot3_h2_xz (x y z : ℝ) (hpos : 0 < x ^ 2 + y ^ 2 + z ^ 2) :
-    HasDerivAt (fun t => evalT (Function.update (envOf [x, y, z]) 2 t) (f_gsl_hypot3.d 0)) (evalT (envOf [x, y, z]) (f_gsl_hypot3.h 2)) z := by
+    HasDerivAt (fun t => evalT I (Function.update (envOf [x, y, z]) 2 t) (f_gsl_hypot3.d 0)) (evalT I (envOf [x, y, z]) (f_gsl_hypot3.h 2)) z := by
   have h := Deriv.hypot3_hes_xz x y z hpos
-  have ef : (fun t => evalT (Function.update (envOf [x, y, z]) 2 t) (f_gsl_hypot3.d 0)) = (fun u => Deriv.h3Dx x y u) := by
+  have ef : (fun t => evalT I (Function.update (envOf [x, y, z]) 2 t) (f_gsl_hypot3.d 0)) = (fun u => Deriv.h3Dx x y u) := by
     funext t; simp [evalT, f_gsl_hypot3, Formulas.d, Formulas.h, RExpr.inline, specE, RExpr.subst, eval, envOf, Function.update, Deriv.hyp3, Deriv.h3Dx, Deriv.h3Dy, Deriv.h3Dz, Deriv.hypot3Hes, pow_two]
   rw [ef]
   exact h.congr_deriv (by simp [evalT, f_gsl_hypot3, Formulas.d, Formulas.h, RExpr.inline, specE, RExpr.subst, eval, envOf, Function.update, Deriv.hyp3, Deriv.h3Dx, Deriv.h3Dy, Deriv.h3Dz, Deriv.hypot3Hes, pow_two])
 
 theorem hypot3_h3_yy (x y z : ℝ) (hpos : 0 < x ^ 2 + y ^ 2 + z ^ 2) :
-    HasDerivAt (fun t => evalT (Function.update (envOf [x, y, z]) 1 t) (f_gsl_hypot3.d 1)) (evalT (envOf [x, y, z]) (f_gsl_hypot3.h 3)) y := by
+    HasDerivAt (fun t => evalT I (Function.update (envOf [x, y, z]) 1 t) (f_gsl_hypot3.d 1)) (evalT I (envOf [x, y, z]) (f_gsl_hypot3.h 3)) y := by
   have h := Deriv.hypot3_hes_yy x y z hpos
-  have ef : (fun t => evalT (Function.update (envOf [x, y, z]) 1 t) (f_gsl_hypot3.d 1)) = (fun s => Deriv.h3Dy x s z) := by
+  have ef : (fun t => evalT I (Function.update (envOf [x, y, z]) 1 t) (f_gsl_hypot3.d 1)) = (fun s => Deriv.h3Dy x s z) := by
     funext t; simp [evalT, f_gsl_hypot3, Formulas.d, Formulas.h, RExpr.inline, specE, RExpr.subst, eval, envOf, Function.update, Deriv.hyp3, Deriv.h3Dx, Deriv.h3Dy, Deriv.h3Dz, Deriv.hypot3Hes, pow_two]
   rw [ef]
   exact h.congr_deriv (by simp [evalT, f_gsl_hypot3, Formulas.d, Formulas.h, RExpr.inline, specE, RExpr.subst, eval, envOf, Function.update, Deriv.hyp3, Deriv.h3Dx, Deriv.h3Dy, Deriv.h3Dz, Deriv.hypot3Hes, pow_two])
 
 theorem hypot3_h4_yz (x y z : ℝ) (hpos : 0 < x ^ 2 + y ^ 2 + z ^ 2) :
-    HasDerivAt (fun t => evalT (Function.update (envOf [x, y, z]) 2 t) (f_gsl_hypot3.d 1)) (evalT (envOf [x, y, z]) (f_gsl_hypot3.h 4)) z := by
+    HasDerivAt (fun t => evalT I (Function.update (envOf [x, y, z]) 2 t) (f_gsl_hypot3.d 1)) (evalT I (envOf [x, y, z]) (f_gsl_hypot3.h 4)) z := by
   have h := Deriv.hypot3_hes_yz x y z hpos
-  have ef : (fun t => evalT (Function.update (envOf [x, y, z]) 2 t) (f_gsl_hypot3.d 1)) = (fun u => Deriv.h3Dy x y u) := by
+  have ef : (fun t => evalT I (Function.update (envOf [x, y, z]) 2 t) (f_gsl_hypot3.d 1)) = (fun u => Deriv.h3Dy x y u) := by
     funext t; simp [evalT, f_gsl_hypot3, Formulas.d, Formulas.h, RExpr.inline, specE, RExpr.subst, eval, envOf, Function.update, Deriv.hyp3, Deriv.h3Dx, Deriv.h3Dy, Deriv.h3Dz, Deriv.hypot3Hes, pow_two]
   rw [ef]
   exact h.congr_deriv (by simp [evalT, f_gsl_hypot3, Formulas.d, Formulas.h, RExpr.inline, specE, RExpr.subst, eval, envOf, Function.update, Deriv.hyp3, Deriv.h3Dx, Deriv.h3Dy, Deriv.h3Dz, Deriv.hypot3Hes, pow_two])
 
 theorem hypot3_h5_zz (x y z : ℝ) (hpos : 0 < x ^ 2 + y ^ 2 + z ^ 2) :
-    HasDerivAt (fun t => evalT (Function.update (envOf [x, y, z]) 2 t) (f_gsl_hypot3.d 2)) (evalT (envOf [x, y, z]) (f_gsl_hypot3.h 5)) z := by
+    HasDerivAt (fun t => evalT I (Function.update (envOf [x, y, z]) 2 t) (f_gsl_hypot3.d 2)) (evalT I (envOf [x, y, z]) (f_gsl_hypot3.h 5)) z := by
   have h := Deriv.hypot3_hes_zz x y z hpos
-  have ef : (fun t => evalT (Function.update (envOf [x, y, z]) 2 t) (f_gsl_hypot3.d 2)) = (fun u => Deriv.h3Dz x y u) := by
+  have ef : (fun t => evalT I (Function.update (envOf [x, y, z]) 2 t) (f_gsl_hypot3.d 2)) = (fun u => Deriv.h3Dz x y u) := by
     funext t; simp [evalT, f_gsl_hypot3, Formulas.d, Formulas.h, RExpr.inline, specE, RExpr.subst, eval, envOf, Function.update, Deriv.hyp3, Deriv.h3Dx, Deriv.h3Dy, Deriv.h3Dz, Deriv.hypot3Hes, pow_two]
   rw [ef]
   exact h.congr_deriv (by simp [evalT, f_gsl_hypot3, Formulas.d, Formulas.h, RExpr.inline, specE, RExpr.subst, eval, envOf, Function.update, Deriv.hyp3, Deriv.h3Dx, Deriv.h3Dy, Deriv.h3Dz, Deriv.hypot3Hes, pow_two])
 
+
+/-! ### bindings whose value is a GSL special function: theorems CONDITIONAL on the classical derivative identities
+
+`Ident I f x` (RDiff.lean) says that the identity `dsym f` — e.g. J₀′ = −J₁, I₁′ = (I₀ + I₂)/2, Ai″ = x·Ai, F′ = 1 − 2xF, Γ′ = Γψ —
+holds at x for the interpretation `I` of the symbols.  Under the identities named in its hypotheses each theorem proves that the expression
+amplgsl.cc stores into `derivs[0]` is the derivative of the value, resp. that the one stored into `hes[0]` is the derivative of the stored
+first derivative.  Nothing is proved about GSL's functions themselves; a changed formula in amplgsl.cc breaks the theorem. -/
+
+theorem bessel_J0_d0 (x : ℝ) (hI0 : Ident I "gsl_sf_bessel_J0" x) :
+    HasDerivAt (fun t => evalT I (Function.update (envOf [x]) 0 t) (f_gsl_sf_bessel_J0.value)) (evalT I (envOf [x]) (f_gsl_sf_bessel_J0.d 0)) x := by
+  refine deriv_of_formula I _ _ _ _ ?_ ?_
+  · simp [f_gsl_sf_bessel_J0, Formulas.d, Formulas.h, RExpr.inline, specE, RExpr.subst, Ok, dsym, dsymE, eval, envOf, *]
+  · simp [f_gsl_sf_bessel_J0, Formulas.d, Formulas.h, RExpr.inline, specE, RExpr.subst, dsym, dsymE, eval, diff, envOf, *]
+    try field_simp
+    try ring
+    all_goals (try simp)
+
+theorem bessel_J0_h0 (x : ℝ) (hI0 : Ident I "gsl_sf_bessel_J1" x) :
+    HasDerivAt (fun t => evalT I (Function.update (envOf [x]) 0 t) (f_gsl_sf_bessel_J0.d 0)) (evalT I (envOf [x]) (f_gsl_sf_bessel_J0.h 0)) x := by
+  refine deriv_of_formula I _ _ _ _ ?_ ?_
+  · simp [f_gsl_sf_bessel_J0, Formulas.d, Formulas.h, RExpr.inline, specE, RExpr.subst, Ok, dsym, dsymE, eval, envOf, *]
+  · simp [f_gsl_sf_bessel_J0, Formulas.d, Formulas.h, RExpr.inline, specE, RExpr.subst, dsym, dsymE, eval, diff, envOf, *]
+    try field_simp
+    try ring
+    all_goals (try simp)
+
+theorem bessel_J1_d0 (x : ℝ) (hI0 : Ident I "gsl_sf_bessel_J1" x) :
+    HasDerivAt (fun t => evalT I (Function.update (envOf [x]) 0 t) (f_gsl_sf_bessel_J1.value)) (evalT I (envOf [x]) (f_gsl_sf_bessel_J1.d 0)) x := by
+  refine deriv_of_formula I _ _ _ _ ?_ ?_
+  · simp [f_gsl_sf_bessel_J1, Formulas.d, Formulas.h, RExpr.inline, specE, RExpr.subst, Ok, dsym, dsymE, eval, envOf, *]
+  · simp [f_gsl_sf_bessel_J1, Formulas.d, Formulas.h, RExpr.inline, specE, RExpr.subst, dsym, dsymE, eval, diff, envOf, *]
+    try field_simp
+    try ring
+    all_goals (try simp)
+
+theorem bessel_J1_h0 (x : ℝ) (hI0 : Ident I "gsl_sf_bessel_J0" x) (hI1 : Ident I "gsl_sf_bessel_Jn#2" x) :
+    HasDerivAt (fun t => evalT I (Function.update (envOf [x]) 0 t) (f_gsl_sf_bessel_J1.d 0)) (evalT I (envOf [x]) (f_gsl_sf_bessel_J1.h 0)) x := by
+  refine deriv_of_formula I _ _ _ _ ?_ ?_
+  · simp [f_gsl_sf_bessel_J1, Formulas.d, Formulas.h, RExpr.inline, specE, RExpr.subst, Ok, dsym, dsymE, eval, envOf, *]
+  · simp [f_gsl_sf_bessel_J1, Formulas.d, Formulas.h, RExpr.inline, specE, RExpr.subst, dsym, dsymE, eval, diff, envOf, *]
+    try field_simp
+    try ring
+    all_goals (try simp)
+
+theorem bessel_Y0_d0 (x : ℝ) (hI0 : Ident I "gsl_sf_bessel_Y0" x) :
+    HasDerivAt (fun t => evalT I (Function.update (envOf [x]) 0 t) (f_gsl_sf_bessel_Y0.value)) (evalT I (envOf [x]) (f_gsl_sf_bessel_Y0.d 0)) x := by
+  refine deriv_of_formula I _ _ _ _ ?_ ?_
+  · simp [f_gsl_sf_bessel_Y0, Formulas.d, Formulas.h, RExpr.inline, specE, RExpr.subst, Ok, dsym, dsymE, eval, envOf, *]
+  · simp [f_gsl_sf_bessel_Y0, Formulas.d, Formulas.h, RExpr.inline, specE, RExpr.subst, dsym, dsymE, eval, diff, envOf, *]
+    try field_simp
+    try ring
+    all_goals (try simp)
+
+theorem bessel_Y0_h0 (x : ℝ) (hI0 : Ident I "gsl_sf_bessel_Y1" x) :
+    HasDerivAt (fun t => evalT I (Function.update (envOf [x]) 0 t) (f_gsl_sf_bessel_Y0.d 0)) (evalT I (envOf [x]) (f_gsl_sf_bessel_Y0.h 0)) x := by
+  refine deriv_of_formula I _ _ _ _ ?_ ?_
+  · simp [f_gsl_sf_bessel_Y0, Formulas.d, Formulas.h, RExpr.inline, specE, RExpr.subst, Ok, dsym, dsymE, eval, envOf, *]
+  · simp [f_gsl_sf_bessel_Y0, Formulas.d, Formulas.h, RExpr.inline, specE, RExpr.subst, dsym, dsymE, eval, diff, envOf, *]
+    try field_simp
+    try ring
+    all_goals (try simp)
+
+theorem bessel_Y1_d0 (x : ℝ) (hI0 : Ident I "gsl_sf_bessel_Y1" x) :
+    HasDerivAt (fun t => evalT I (Function.update (envOf [x]) 0 t) (f_gsl_sf_bessel_Y1.value)) (evalT I (envOf [x]) (f_gsl_sf_bessel_Y1.d 0)) x := by
+  refine deriv_of_formula I _ _ _ _ ?_ ?_
+  · simp [f_gsl_sf_bessel_Y1, Formulas.d, Formulas.h, RExpr.inline, specE, RExpr.subst, Ok, dsym, dsymE, eval, envOf, *]
+  · simp [f_gsl_sf_bessel_Y1, Formulas.d, Formulas.h, RExpr.inline, specE, RExpr.subst, dsym, dsymE, eval, diff, envOf, *]
+    try field_simp
+    try ring
+    all_goals (try simp)
+
+theorem bessel_Y1_h0 (x : ℝ) (hI0 : Ident I "gsl_sf_bessel_Y0" x) (hI1 : Ident I "gsl_sf_bessel_Yn#2" x) :
+    HasDerivAt (fun t => evalT I (Function.update (envOf [x]) 0 t) (f_gsl_sf_bessel_Y1.d 0)) (evalT I (envOf [x]) (f_gsl_sf_bessel_Y1.h 0)) x := by
+  refine deriv_of_formula I _ _ _ _ ?_ ?_
+  · simp [f_gsl_sf_bessel_Y1, Formulas.d, Formulas.h, RExpr.inline, specE, RExpr.subst, Ok, dsym, dsymE, eval, envOf, *]
+  · simp [f_gsl_sf_bessel_Y1, Formulas.d, Formulas.h, RExpr.inline, specE, RExpr.subst, dsym, dsymE, eval, diff, envOf, *]
+    try field_simp
+    try ring
+    all_goals (try simp)
+
+theorem bessel_I0_d0 (x : ℝ) (hI0 : Ident I "gsl_sf_bessel_I0" x) :
+    HasDerivAt (fun t => evalT I (Function.update (envOf [x]) 0 t) (f_gsl_sf_bessel_I0.value)) (evalT I (envOf [x]) (f_gsl_sf_bessel_I0.d 0)) x := by
+  refine deriv_of_formula I _ _ _ _ ?_ ?_
+  · simp [f_gsl_sf_bessel_I0, Formulas.d, Formulas.h, RExpr.inline, specE, RExpr.subst, Ok, dsym, dsymE, eval, envOf, *]
+  · simp [f_gsl_sf_bessel_I0, Formulas.d, Formulas.h, RExpr.inline, specE, RExpr.subst, dsym, dsymE, eval, diff, envOf, *]
+    try field_simp
+    try ring
+    all_goals (try simp)
+
+theorem bessel_I0_h0 (x : ℝ) (hI0 : Ident I "gsl_sf_bessel_I1" x) :
+    HasDerivAt (fun t => evalT I (Function.update (envOf [x]) 0 t) (f_gsl_sf_bessel_I0.d 0)) (evalT I (envOf [x]) (f_gsl_sf_bessel_I0.h 0)) x := by
+  refine deriv_of_formula I _ _ _ _ ?_ ?_
+  · simp [f_gsl_sf_bessel_I0, Formulas.d, Formulas.h, RExpr.inline, specE, RExpr.subst, Ok, dsym, dsymE, eval, envOf, *]
+  · simp [f_gsl_sf_bessel_I0, Formulas.d, Formulas.h, RExpr.inline, specE, RExpr.subst, dsym, dsymE, eval, diff, envOf, *]
+    try field_simp
+    try ring
+    all_goals (try simp)
+
+theorem bessel_I1_d0 (x : ℝ) (hI0 : Ident I "gsl_sf_bessel_I1" x) :
+    HasDerivAt (fun t => evalT I (Function.update (envOf [x]) 0 t) (f_gsl_sf_bessel_I1.value)) (evalT I (envOf [x]) (f_gsl_sf_bessel_I1.d 0)) x := by
+  refine deriv_of_formula I _ _ _ _ ?_ ?_
+  · simp [f_gsl_sf_bessel_I1, Formulas.d, Formulas.h, RExpr.inline, specE, RExpr.subst, Ok, dsym, dsymE, eval, envOf, *]
+  · simp [f_gsl_sf_bessel_I1, Formulas.d, Formulas.h, RExpr.inline, specE, RExpr.subst, dsym, dsymE, eval, diff, envOf, *]
+    try field_simp
+    try ring
+    all_goals (try simp)
+
+theorem bessel_I1_h0 (x : ℝ) (hI0 : Ident I "gsl_sf_bessel_I0" x) (hI1 : Ident I "gsl_sf_bessel_In#2" x) :
+    HasDerivAt (fun t => evalT I (Function.update (envOf [x]) 0 t) (f_gsl_sf_bessel_I1.d 0)) (evalT I (envOf [x]) (f_gsl_sf_bessel_I1.h 0)) x := by
+  refine deriv_of_formula I _ _ _ _ ?_ ?_
+  · simp [f_gsl_sf_bessel_I1, Formulas.d, Formulas.h, RExpr.inline, specE, RExpr.subst, Ok, dsym, dsymE, eval, envOf, *]
+  · simp [f_gsl_sf_bessel_I1, Formulas.d, Formulas.h, RExpr.inline, specE, RExpr.subst, dsym, dsymE, eval, diff, envOf, *]
+    try field_simp
+    try ring
+    all_goals (try simp)
+
+theorem bessel_K0_d0 (x : ℝ) (hI0 : Ident I "gsl_sf_bessel_K0" x) :
+    HasDerivAt (fun t => evalT I (Function.update (envOf [x]) 0 t) (f_gsl_sf_bessel_K0.value)) (evalT I (envOf [x]) (f_gsl_sf_bessel_K0.d 0)) x := by
+  refine deriv_of_formula I _ _ _ _ ?_ ?_
+  · simp [f_gsl_sf_bessel_K0, Formulas.d, Formulas.h, RExpr.inline, specE, RExpr.subst, Ok, dsym, dsymE, eval, envOf, *]
+  · simp [f_gsl_sf_bessel_K0, Formulas.d, Formulas.h, RExpr.inline, specE, RExpr.subst, dsym, dsymE, eval, diff, envOf, *]
+    try field_simp
+    try ring
+    all_goals (try simp)
+
+theorem bessel_K0_h0 (x : ℝ) (hI0 : Ident I "gsl_sf_bessel_K1" x) :
+    HasDerivAt (fun t => evalT I (Function.update (envOf [x]) 0 t) (f_gsl_sf_bessel_K0.d 0)) (evalT I (envOf [x]) (f_gsl_sf_bessel_K0.h 0)) x := by
+  refine deriv_of_formula I _ _ _ _ ?_ ?_
+  · simp [f_gsl_sf_bessel_K0, Formulas.d, Formulas.h, RExpr.inline, specE, RExpr.subst, Ok, dsym, dsymE, eval, envOf, *]
+  · simp [f_gsl_sf_bessel_K0, Formulas.d, Formulas.h, RExpr.inline, specE, RExpr.subst, dsym, dsymE, eval, diff, envOf, *]
+    try field_simp
+    try ring
+    all_goals (try simp)
+
+theorem bessel_K1_d0 (x : ℝ) (hI0 : Ident I "gsl_sf_bessel_K1" x) :
+    HasDerivAt (fun t => evalT I (Function.update (envOf [x]) 0 t) (f_gsl_sf_bessel_K1.value)) (evalT I (envOf [x]) (f_gsl_sf_bessel_K1.d 0)) x := by
+  refine deriv_of_formula I _ _ _ _ ?_ ?_
+  · simp [f_gsl_sf_bessel_K1, Formulas.d, Formulas.h, RExpr.inline, specE, RExpr.subst, Ok, dsym, dsymE, eval, envOf, *]
+  · simp [f_gsl_sf_bessel_K1, Formulas.d, Formulas.h, RExpr.inline, specE, RExpr.subst, dsym, dsymE, eval, diff, envOf, *]
+    try field_simp
+    try ring
+    all_goals (try simp)
+
+theorem bessel_K1_h0 (x : ℝ) (hI0 : Ident I "gsl_sf_bessel_K0" x) (hI1 : Ident I "gsl_sf_bessel_Kn#2" x) :
+    HasDerivAt (fun t => evalT I (Function.update (envOf [x]) 0 t) (f_gsl_sf_bessel_K1.d 0)) (evalT I (envOf [x]) (f_gsl_sf_bessel_K1.h 0)) x := by
+  refine deriv_of_formula I _ _ _ _ ?_ ?_
+  · simp [f_gsl_sf_bessel_K1, Formulas.d, Formulas.h, RExpr.inline, specE, RExpr.subst, Ok, dsym, dsymE, eval, envOf, *]
+  · simp [f_gsl_sf_bessel_K1, Formulas.d, Formulas.h, RExpr.inline, specE, RExpr.subst, dsym, dsymE, eval, diff, envOf, *]
+    try field_simp
+    try ring
+    all_goals (try simp)
+
+theorem bessel_K0_scaled_d0 (x : ℝ) (hI0 : Ident I "gsl_sf_bessel_K0_scaled" x) :
+    HasDerivAt (fun t => evalT I (Function.update (envOf [x]) 0 t) (f_gsl_sf_bessel_K0_scaled.value)) (evalT I (envOf [x]) (f_gsl_sf_bessel_K0_scaled.d 0)) x := by
+  refine deriv_of_formula I _ _ _ _ ?_ ?_
+  · simp [f_gsl_sf_bessel_K0_scaled, Formulas.d, Formulas.h, RExpr.inline, specE, RExpr.subst, Ok, dsym, dsymE, eval, envOf, *]
+  · simp [f_gsl_sf_bessel_K0_scaled, Formulas.d, Formulas.h, RExpr.inline, specE, RExpr.subst, dsym, dsymE, eval, diff, envOf, *]
+    try field_simp
+    try ring
+    all_goals (try simp)
+
+theorem bessel_K0_scaled_h0 (x : ℝ) (hI0 : Ident I "gsl_sf_bessel_K0_scaled" x) (hI1 : Ident I "gsl_sf_bessel_K1_scaled" x) :
+    HasDerivAt (fun t => evalT I (Function.update (envOf [x]) 0 t) (f_gsl_sf_bessel_K0_scaled.d 0)) (evalT I (envOf [x]) (f_gsl_sf_bessel_K0_scaled.h 0)) x := by
+  refine deriv_of_formula I _ _ _ _ ?_ ?_
+  · simp [f_gsl_sf_bessel_K0_scaled, Formulas.d, Formulas.h, RExpr.inline, specE, RExpr.subst, Ok, dsym, dsymE, eval, envOf, *]
+  · simp [f_gsl_sf_bessel_K0_scaled, Formulas.d, Formulas.h, RExpr.inline, specE, RExpr.subst, dsym, dsymE, eval, diff, envOf, *]
+    try field_simp
+    try ring
+    all_goals (try simp)
+
+theorem bessel_K1_scaled_d0 (x : ℝ) (hI0 : Ident I "gsl_sf_bessel_K1_scaled" x) :
+    HasDerivAt (fun t => evalT I (Function.update (envOf [x]) 0 t) (f_gsl_sf_bessel_K1_scaled.value)) (evalT I (envOf [x]) (f_gsl_sf_bessel_K1_scaled.d 0)) x := by
+  refine deriv_of_formula I _ _ _ _ ?_ ?_
+  · simp [f_gsl_sf_bessel_K1_scaled, Formulas.d, Formulas.h, RExpr.inline, specE, RExpr.subst, Ok, dsym, dsymE, eval, envOf, *]
+  · simp [f_gsl_sf_bessel_K1_scaled, Formulas.d, Formulas.h, RExpr.inline, specE, RExpr.subst, dsym, dsymE, eval, diff, envOf, *]
+    try field_simp
+    try ring
+    all_goals (try simp)
+
+theorem bessel_K1_scaled_h0 (x : ℝ) (hI0 : Ident I "gsl_sf_bessel_K0_scaled" x) (hI1 : Ident I "gsl_sf_bessel_K1_scaled" x) (hI2 : Ident I "gsl_sf_bessel_Kn_scaled#2" x) :
+    HasDerivAt (fun t => evalT I (Function.update (envOf [x]) 0 t) (f_gsl_sf_bessel_K1_scaled.d 0)) (evalT I (envOf [x]) (f_gsl_sf_bessel_K1_scaled.h 0)) x := by
+  refine deriv_of_formula I _ _ _ _ ?_ ?_
+  · simp [f_gsl_sf_bessel_K1_scaled, Formulas.d, Formulas.h, RExpr.inline, specE, RExpr.subst, Ok, dsym, dsymE, eval, envOf, *]
+  · simp [f_gsl_sf_bessel_K1_scaled, Formulas.d, Formulas.h, RExpr.inline, specE, RExpr.subst, dsym, dsymE, eval, diff, envOf, *]
+    try field_simp
+    try ring
+    all_goals (try simp)
+
+theorem airy_Ai_d0 (x : ℝ) (hI0 : Ident I "gsl_sf_airy_Ai" x) :
+    HasDerivAt (fun t => evalT I (Function.update (envOf [x]) 0 t) (f_gsl_sf_airy_Ai.value)) (evalT I (envOf [x]) (f_gsl_sf_airy_Ai.d 0)) x := by
+  refine deriv_of_formula I _ _ _ _ ?_ ?_
+  · simp [f_gsl_sf_airy_Ai, Formulas.d, Formulas.h, RExpr.inline, specE, RExpr.subst, Ok, dsym, dsymE, eval, envOf, *]
+  · simp [f_gsl_sf_airy_Ai, Formulas.d, Formulas.h, RExpr.inline, specE, RExpr.subst, dsym, dsymE, eval, diff, envOf, *]
+    try field_simp
+    try ring
+    all_goals (try simp)
+
+theorem airy_Ai_h0 (x : ℝ) (hI0 : Ident I "gsl_sf_airy_Ai_deriv" x) :
+    HasDerivAt (fun t => evalT I (Function.update (envOf [x]) 0 t) (f_gsl_sf_airy_Ai.d 0)) (evalT I (envOf [x]) (f_gsl_sf_airy_Ai.h 0)) x := by
+  refine deriv_of_formula I _ _ _ _ ?_ ?_
+  · simp [f_gsl_sf_airy_Ai, Formulas.d, Formulas.h, RExpr.inline, specE, RExpr.subst, Ok, dsym, dsymE, eval, envOf, *]
+  · simp [f_gsl_sf_airy_Ai, Formulas.d, Formulas.h, RExpr.inline, specE, RExpr.subst, dsym, dsymE, eval, diff, envOf, *]
+    try field_simp
+    try ring
+    all_goals (try simp)
+
+theorem airy_Bi_d0 (x : ℝ) (hI0 : Ident I "gsl_sf_airy_Bi" x) :
+    HasDerivAt (fun t => evalT I (Function.update (envOf [x]) 0 t) (f_gsl_sf_airy_Bi.value)) (evalT I (envOf [x]) (f_gsl_sf_airy_Bi.d 0)) x := by
+  refine deriv_of_formula I _ _ _ _ ?_ ?_
+  · simp [f_gsl_sf_airy_Bi, Formulas.d, Formulas.h, RExpr.inline, specE, RExpr.subst, Ok, dsym, dsymE, eval, envOf, *]
+  · simp [f_gsl_sf_airy_Bi, Formulas.d, Formulas.h, RExpr.inline, specE, RExpr.subst, dsym, dsymE, eval, diff, envOf, *]
+    try field_simp
+    try ring
+    all_goals (try simp)
+
+theorem airy_Bi_h0 (x : ℝ) (hI0 : Ident I "gsl_sf_airy_Bi_deriv" x) :
+    HasDerivAt (fun t => evalT I (Function.update (envOf [x]) 0 t) (f_gsl_sf_airy_Bi.d 0)) (evalT I (envOf [x]) (f_gsl_sf_airy_Bi.h 0)) x := by
+  refine deriv_of_formula I _ _ _ _ ?_ ?_
+  · simp [f_gsl_sf_airy_Bi, Formulas.d, Formulas.h, RExpr.inline, specE, RExpr.subst, Ok, dsym, dsymE, eval, envOf, *]
+  · simp [f_gsl_sf_airy_Bi, Formulas.d, Formulas.h, RExpr.inline, specE, RExpr.subst, dsym, dsymE, eval, diff, envOf, *]
+    try field_simp
+    try ring
+    all_goals (try simp)
+
+theorem dawson_d0 (x : ℝ) (hI0 : Ident I "gsl_sf_dawson" x) :
+    HasDerivAt (fun t => evalT I (Function.update (envOf [x]) 0 t) (f_gsl_sf_dawson.value)) (evalT I (envOf [x]) (f_gsl_sf_dawson.d 0)) x := by
+  refine deriv_of_formula I _ _ _ _ ?_ ?_
+  · simp [f_gsl_sf_dawson, Formulas.d, Formulas.h, RExpr.inline, specE, RExpr.subst, Ok, dsym, dsymE, eval, envOf, *]
+  · simp [f_gsl_sf_dawson, Formulas.d, Formulas.h, RExpr.inline, specE, RExpr.subst, dsym, dsymE, eval, diff, envOf, *]
+    try field_simp
+    try ring
+    all_goals (try simp)
+
+theorem dawson_h0 (x : ℝ) (hI0 : Ident I "gsl_sf_dawson" x) :
+    HasDerivAt (fun t => evalT I (Function.update (envOf [x]) 0 t) (f_gsl_sf_dawson.d 0)) (evalT I (envOf [x]) (f_gsl_sf_dawson.h 0)) x := by
+  refine deriv_of_formula I _ _ _ _ ?_ ?_
+  · simp [f_gsl_sf_dawson, Formulas.d, Formulas.h, RExpr.inline, specE, RExpr.subst, Ok, dsym, dsymE, eval, envOf, *]
+  · simp [f_gsl_sf_dawson, Formulas.d, Formulas.h, RExpr.inline, specE, RExpr.subst, dsym, dsymE, eval, diff, envOf, *]
+    try field_simp
+    try ring
+    all_goals (try simp)
+
+theorem erf_Z_d0 (x : ℝ) (hI0 : Ident I "gsl_sf_erf_Z" x) :
+    HasDerivAt (fun t => evalT I (Function.update (envOf [x]) 0 t) (f_gsl_sf_erf_Z.value)) (evalT I (envOf [x]) (f_gsl_sf_erf_Z.d 0)) x := by
+  refine deriv_of_formula I _ _ _ _ ?_ ?_
+  · simp [f_gsl_sf_erf_Z, Formulas.d, Formulas.h, RExpr.inline, specE, RExpr.subst, Ok, dsym, dsymE, eval, envOf, *]
+  · simp [f_gsl_sf_erf_Z, Formulas.d, Formulas.h, RExpr.inline, specE, RExpr.subst, dsym, dsymE, eval, diff, envOf, *]
+    try field_simp
+    try ring
+    all_goals (try simp)
+
+theorem erf_Z_h0 (x : ℝ) (hI0 : Ident I "gsl_sf_erf_Z" x) :
+    HasDerivAt (fun t => evalT I (Function.update (envOf [x]) 0 t) (f_gsl_sf_erf_Z.d 0)) (evalT I (envOf [x]) (f_gsl_sf_erf_Z.h 0)) x := by
+  refine deriv_of_formula I _ _ _ _ ?_ ?_
+  · simp [f_gsl_sf_erf_Z, Formulas.d, Formulas.h, RExpr.inline, specE, RExpr.subst, Ok, dsym, dsymE, eval, envOf, *]
+  · simp [f_gsl_sf_erf_Z, Formulas.d, Formulas.h, RExpr.inline, specE, RExpr.subst, dsym, dsymE, eval, diff, envOf, *]
+    try field_simp
+    try ring
+    all_goals (try simp)
+
+theorem erf_Q_d0 (x : ℝ) (hI0 : Ident I "gsl_sf_erf_Q" x) :
+    HasDerivAt (fun t => evalT I (Function.update (envOf [x]) 0 t) (f_gsl_sf_erf_Q.value)) (evalT I (envOf [x]) (f_gsl_sf_erf_Q.d 0)) x := by
+  refine deriv_of_formula I _ _ _ _ ?_ ?_
+  · simp [f_gsl_sf_erf_Q, Formulas.d, Formulas.h, RExpr.inline, specE, RExpr.subst, Ok, dsym, dsymE, eval, envOf, *]
+  · simp [f_gsl_sf_erf_Q, Formulas.d, Formulas.h, RExpr.inline, specE, RExpr.subst, dsym, dsymE, eval, diff, envOf, *]
+    try field_simp
+    try ring
+    all_goals (try simp)
+
+theorem erf_Q_h0 (x : ℝ) (hI0 : Ident I "gsl_sf_erf_Z" x) :
+    HasDerivAt (fun t => evalT I (Function.update (envOf [x]) 0 t) (f_gsl_sf_erf_Q.d 0)) (evalT I (envOf [x]) (f_gsl_sf_erf_Q.h 0)) x := by
+  refine deriv_of_formula I _ _ _ _ ?_ ?_
+  · simp [f_gsl_sf_erf_Q, Formulas.d, Formulas.h, RExpr.inline, specE, RExpr.subst, Ok, dsym, dsymE, eval, envOf, *]
+  · simp [f_gsl_sf_erf_Q, Formulas.d, Formulas.h, RExpr.inline, specE, RExpr.subst, dsym, dsymE, eval, diff, envOf, *]
+    try field_simp
+    try ring
+    all_goals (try simp)
+
+theorem hazard_d0 (x : ℝ) (hI0 : Ident I "gsl_sf_hazard" x) :
+    HasDerivAt (fun t => evalT I (Function.update (envOf [x]) 0 t) (f_gsl_sf_hazard.value)) (evalT I (envOf [x]) (f_gsl_sf_hazard.d 0)) x := by
+  refine deriv_of_formula I _ _ _ _ ?_ ?_
+  · simp [f_gsl_sf_hazard, Formulas.d, Formulas.h, RExpr.inline, specE, RExpr.subst, Ok, dsym, dsymE, eval, envOf, *]
+  · simp [f_gsl_sf_hazard, Formulas.d, Formulas.h, RExpr.inline, specE, RExpr.subst, dsym, dsymE, eval, diff, envOf, *]
+    try field_simp
+    try ring
+    all_goals (try simp)
+
+theorem hazard_h0 (x : ℝ) (hI0 : Ident I "gsl_sf_hazard" x) :
+    HasDerivAt (fun t => evalT I (Function.update (envOf [x]) 0 t) (f_gsl_sf_hazard.d 0)) (evalT I (envOf [x]) (f_gsl_sf_hazard.h 0)) x := by
+  refine deriv_of_formula I _ _ _ _ ?_ ?_
+  · simp [f_gsl_sf_hazard, Formulas.d, Formulas.h, RExpr.inline, specE, RExpr.subst, Ok, dsym, dsymE, eval, envOf, *]
+  · simp [f_gsl_sf_hazard, Formulas.d, Formulas.h, RExpr.inline, specE, RExpr.subst, dsym, dsymE, eval, diff, envOf, *]
+    try field_simp
+    try ring
+    all_goals (try simp)
+
+theorem expint_E1_d0 (x : ℝ) (hx : x ≠ 0) (hI0 : Ident I "gsl_sf_expint_E1" x) :
+    HasDerivAt (fun t => evalT I (Function.update (envOf [x]) 0 t) (f_gsl_sf_expint_E1.value)) (evalT I (envOf [x]) (f_gsl_sf_expint_E1.d 0)) x := by
+  refine deriv_of_formula I _ _ _ _ ?_ ?_
+  · simp [f_gsl_sf_expint_E1, Formulas.d, Formulas.h, RExpr.inline, specE, RExpr.subst, Ok, dsym, dsymE, eval, envOf, *]
+  · simp [f_gsl_sf_expint_E1, Formulas.d, Formulas.h, RExpr.inline, specE, RExpr.subst, dsym, dsymE, eval, diff, envOf, *]
+    try field_simp
+    try ring
+    all_goals (try simp)
+
+theorem expint_E1_h0 (x : ℝ) (hx : x ≠ 0)  :
+    HasDerivAt (fun t => evalT I (Function.update (envOf [x]) 0 t) (f_gsl_sf_expint_E1.d 0)) (evalT I (envOf [x]) (f_gsl_sf_expint_E1.h 0)) x := by
+  refine deriv_of_formula I _ _ _ _ ?_ ?_
+  · simp [f_gsl_sf_expint_E1, Formulas.d, Formulas.h, RExpr.inline, specE, RExpr.subst, Ok, dsym, dsymE, eval, envOf, *]
+  · simp [f_gsl_sf_expint_E1, Formulas.d, Formulas.h, RExpr.inline, specE, RExpr.subst, dsym, dsymE, eval, diff, envOf, *]
+    try field_simp
+    try ring
+    all_goals (try simp)
+
+theorem expint_E2_d0 (x : ℝ) (hI0 : Ident I "gsl_sf_expint_E2" x) :
+    HasDerivAt (fun t => evalT I (Function.update (envOf [x]) 0 t) (f_gsl_sf_expint_E2.value)) (evalT I (envOf [x]) (f_gsl_sf_expint_E2.d 0)) x := by
+  refine deriv_of_formula I _ _ _ _ ?_ ?_
+  · simp [f_gsl_sf_expint_E2, Formulas.d, Formulas.h, RExpr.inline, specE, RExpr.subst, Ok, dsym, dsymE, eval, envOf, *]
+  · simp [f_gsl_sf_expint_E2, Formulas.d, Formulas.h, RExpr.inline, specE, RExpr.subst, dsym, dsymE, eval, diff, envOf, *]
+    try field_simp
+    try ring
+    all_goals (try simp)
+
+theorem expint_E2_h0 (x : ℝ) (hI0 : Ident I "gsl_sf_expint_E1" x) :
+    HasDerivAt (fun t => evalT I (Function.update (envOf [x]) 0 t) (f_gsl_sf_expint_E2.d 0)) (evalT I (envOf [x]) (f_gsl_sf_expint_E2.h 0)) x := by
+  refine deriv_of_formula I _ _ _ _ ?_ ?_
+  · simp [f_gsl_sf_expint_E2, Formulas.d, Formulas.h, RExpr.inline, specE, RExpr.subst, Ok, dsym, dsymE, eval, envOf, *]
+  · simp [f_gsl_sf_expint_E2, Formulas.d, Formulas.h, RExpr.inline, specE, RExpr.subst, dsym, dsymE, eval, diff, envOf, *]
+    try field_simp
+    try ring
+    all_goals (try simp)
+
+theorem expint_Ei_d0 (x : ℝ) (hx : x ≠ 0) (hI0 : Ident I "gsl_sf_expint_Ei" x) :
+    HasDerivAt (fun t => evalT I (Function.update (envOf [x]) 0 t) (f_gsl_sf_expint_Ei.value)) (evalT I (envOf [x]) (f_gsl_sf_expint_Ei.d 0)) x := by
+  refine deriv_of_formula I _ _ _ _ ?_ ?_
+  · simp [f_gsl_sf_expint_Ei, Formulas.d, Formulas.h, RExpr.inline, specE, RExpr.subst, Ok, dsym, dsymE, eval, envOf, *]
+  · simp [f_gsl_sf_expint_Ei, Formulas.d, Formulas.h, RExpr.inline, specE, RExpr.subst, dsym, dsymE, eval, diff, envOf, *]
+    try field_simp
+    try ring
+    all_goals (try simp)
+
+theorem expint_Ei_h0 (x : ℝ) (hx : x ≠ 0)  :
+    HasDerivAt (fun t => evalT I (Function.update (envOf [x]) 0 t) (f_gsl_sf_expint_Ei.d 0)) (evalT I (envOf [x]) (f_gsl_sf_expint_Ei.h 0)) x := by
+  refine deriv_of_formula I _ _ _ _ ?_ ?_
+  · simp [f_gsl_sf_expint_Ei, Formulas.d, Formulas.h, RExpr.inline, specE, RExpr.subst, Ok, dsym, dsymE, eval, envOf, *]
+  · simp [f_gsl_sf_expint_Ei, Formulas.d, Formulas.h, RExpr.inline, specE, RExpr.subst, dsym, dsymE, eval, diff, envOf, *]
+    try field_simp
+    try ring
+    all_goals (try simp)
+
+theorem Si_d0 (x : ℝ) (hx : x ≠ 0) (hI0 : Ident I "gsl_sf_Si" x) :
+    HasDerivAt (fun t => evalT I (Function.update (envOf [x]) 0 t) (f_gsl_sf_Si.value)) (evalT I (envOf [x]) (f_gsl_sf_Si.d 0)) x := by
+  refine deriv_of_formula I _ _ _ _ ?_ ?_
+  · simp [f_gsl_sf_Si, Formulas.d, Formulas.h, RExpr.inline, specE, RExpr.subst, Ok, dsym, dsymE, eval, envOf, *]
+  · simp [f_gsl_sf_Si, Formulas.d, Formulas.h, RExpr.inline, specE, RExpr.subst, dsym, dsymE, eval, diff, envOf, *]
+    try field_simp
+    try ring
+    all_goals (try simp)
+
+theorem Si_h0 (x : ℝ) (hx : x ≠ 0)  :
+    HasDerivAt (fun t => evalT I (Function.update (envOf [x]) 0 t) (f_gsl_sf_Si.d 0)) (evalT I (envOf [x]) (f_gsl_sf_Si.h 0)) x := by
+  refine deriv_of_formula I _ _ _ _ ?_ ?_
+  · simp [f_gsl_sf_Si, Formulas.d, Formulas.h, RExpr.inline, specE, RExpr.subst, Ok, dsym, dsymE, eval, envOf, *]
+  · simp [f_gsl_sf_Si, Formulas.d, Formulas.h, RExpr.inline, specE, RExpr.subst, dsym, dsymE, eval, diff, envOf, *]
+    try field_simp
+    try ring
+    all_goals (try simp)
+
+theorem Ci_d0 (x : ℝ) (hx : x ≠ 0) (hI0 : Ident I "gsl_sf_Ci" x) :
+    HasDerivAt (fun t => evalT I (Function.update (envOf [x]) 0 t) (f_gsl_sf_Ci.value)) (evalT I (envOf [x]) (f_gsl_sf_Ci.d 0)) x := by
+  refine deriv_of_formula I _ _ _ _ ?_ ?_
+  · simp [f_gsl_sf_Ci, Formulas.d, Formulas.h, RExpr.inline, specE, RExpr.subst, Ok, dsym, dsymE, eval, envOf, *]
+  · simp [f_gsl_sf_Ci, Formulas.d, Formulas.h, RExpr.inline, specE, RExpr.subst, dsym, dsymE, eval, diff, envOf, *]
+    try field_simp
+    try ring
+    all_goals (try simp)
+
+theorem Ci_h0 (x : ℝ) (hx : x ≠ 0)  :
+    HasDerivAt (fun t => evalT I (Function.update (envOf [x]) 0 t) (f_gsl_sf_Ci.d 0)) (evalT I (envOf [x]) (f_gsl_sf_Ci.h 0)) x := by
+  refine deriv_of_formula I _ _ _ _ ?_ ?_
+  · simp [f_gsl_sf_Ci, Formulas.d, Formulas.h, RExpr.inline, specE, RExpr.subst, Ok, dsym, dsymE, eval, envOf, *]
+  · simp [f_gsl_sf_Ci, Formulas.d, Formulas.h, RExpr.inline, specE, RExpr.subst, dsym, dsymE, eval, diff, envOf, *]
+    try field_simp
+    try ring
+    all_goals (try simp)
+
+theorem expint_3_d0 (x : ℝ) (hI0 : Ident I "gsl_sf_expint_3" x) :
+    HasDerivAt (fun t => evalT I (Function.update (envOf [x]) 0 t) (f_gsl_sf_expint_3.value)) (evalT I (envOf [x]) (f_gsl_sf_expint_3.d 0)) x := by
+  refine deriv_of_formula I _ _ _ _ ?_ ?_
+  · simp [f_gsl_sf_expint_3, Formulas.d, Formulas.h, RExpr.inline, specE, RExpr.subst, Ok, dsym, dsymE, eval, envOf, *]
+  · simp [f_gsl_sf_expint_3, Formulas.d, Formulas.h, RExpr.inline, specE, RExpr.subst, dsym, dsymE, eval, diff, envOf, *]
+    try field_simp
+    try ring
+    all_goals (try simp)
+
+theorem expint_3_h0 (x : ℝ)  :
+    HasDerivAt (fun t => evalT I (Function.update (envOf [x]) 0 t) (f_gsl_sf_expint_3.d 0)) (evalT I (envOf [x]) (f_gsl_sf_expint_3.h 0)) x := by
+  refine deriv_of_formula I _ _ _ _ ?_ ?_
+  · simp [f_gsl_sf_expint_3, Formulas.d, Formulas.h, RExpr.inline, specE, RExpr.subst, Ok, dsym, dsymE, eval, envOf, *]
+  · simp [f_gsl_sf_expint_3, Formulas.d, Formulas.h, RExpr.inline, specE, RExpr.subst, dsym, dsymE, eval, diff, envOf, *]
+    try field_simp
+    try ring
+    all_goals (try simp)
+
+theorem fermi_dirac_1_d0 (x : ℝ) (hI0 : Ident I "gsl_sf_fermi_dirac_1" x) :
+    HasDerivAt (fun t => evalT I (Function.update (envOf [x]) 0 t) (f_gsl_sf_fermi_dirac_1.value)) (evalT I (envOf [x]) (f_gsl_sf_fermi_dirac_1.d 0)) x := by
+  have he1 : 1 + Real.exp x ≠ 0 := by positivity
+  have he2 : Real.exp x + 1 ≠ 0 := by positivity
+  refine deriv_of_formula I _ _ _ _ ?_ ?_
+  · simp [f_gsl_sf_fermi_dirac_1, Formulas.d, Formulas.h, RExpr.inline, specE, RExpr.subst, Ok, dsym, dsymE, eval, envOf, *]
+  · simp [f_gsl_sf_fermi_dirac_1, Formulas.d, Formulas.h, RExpr.inline, specE, RExpr.subst, dsym, dsymE, eval, diff, envOf, *]
+    try field_simp
+    try ring
+    all_goals (try simp)
+
+theorem fermi_dirac_1_h0 (x : ℝ)  :
+    HasDerivAt (fun t => evalT I (Function.update (envOf [x]) 0 t) (f_gsl_sf_fermi_dirac_1.d 0)) (evalT I (envOf [x]) (f_gsl_sf_fermi_dirac_1.h 0)) x := by
+  have he1 : 1 + Real.exp x ≠ 0 := by positivity
+  have he2 : Real.exp x + 1 ≠ 0 := by positivity
+  refine deriv_of_formula I _ _ _ _ ?_ ?_
+  · simp [f_gsl_sf_fermi_dirac_1, Formulas.d, Formulas.h, RExpr.inline, specE, RExpr.subst, Ok, dsym, dsymE, eval, envOf, *]
+  · simp [f_gsl_sf_fermi_dirac_1, Formulas.d, Formulas.h, RExpr.inline, specE, RExpr.subst, dsym, dsymE, eval, diff, envOf, *]
+    try field_simp
+    try ring
+    all_goals (try simp)
+
+theorem fermi_dirac_2_d0 (x : ℝ) (hI0 : Ident I "gsl_sf_fermi_dirac_2" x) :
+    HasDerivAt (fun t => evalT I (Function.update (envOf [x]) 0 t) (f_gsl_sf_fermi_dirac_2.value)) (evalT I (envOf [x]) (f_gsl_sf_fermi_dirac_2.d 0)) x := by
+  refine deriv_of_formula I _ _ _ _ ?_ ?_
+  · simp [f_gsl_sf_fermi_dirac_2, Formulas.d, Formulas.h, RExpr.inline, specE, RExpr.subst, Ok, dsym, dsymE, eval, envOf, *]
+  · simp [f_gsl_sf_fermi_dirac_2, Formulas.d, Formulas.h, RExpr.inline, specE, RExpr.subst, dsym, dsymE, eval, diff, envOf, *]
+    try field_simp
+    try ring
+    all_goals (try simp)
+
+theorem fermi_dirac_2_h0 (x : ℝ) (hI0 : Ident I "gsl_sf_fermi_dirac_1" x) :
+    HasDerivAt (fun t => evalT I (Function.update (envOf [x]) 0 t) (f_gsl_sf_fermi_dirac_2.d 0)) (evalT I (envOf [x]) (f_gsl_sf_fermi_dirac_2.h 0)) x := by
+  refine deriv_of_formula I _ _ _ _ ?_ ?_
+  · simp [f_gsl_sf_fermi_dirac_2, Formulas.d, Formulas.h, RExpr.inline, specE, RExpr.subst, Ok, dsym, dsymE, eval, envOf, *]
+  · simp [f_gsl_sf_fermi_dirac_2, Formulas.d, Formulas.h, RExpr.inline, specE, RExpr.subst, dsym, dsymE, eval, diff, envOf, *]
+    try field_simp
+    try ring
+    all_goals (try simp)
+
+theorem fermi_dirac_3half_d0 (x : ℝ) (hI0 : Ident I "gsl_sf_fermi_dirac_3half" x) :
+    HasDerivAt (fun t => evalT I (Function.update (envOf [x]) 0 t) (f_gsl_sf_fermi_dirac_3half.value)) (evalT I (envOf [x]) (f_gsl_sf_fermi_dirac_3half.d 0)) x := by
+  refine deriv_of_formula I _ _ _ _ ?_ ?_
+  · simp [f_gsl_sf_fermi_dirac_3half, Formulas.d, Formulas.h, RExpr.inline, specE, RExpr.subst, Ok, dsym, dsymE, eval, envOf, *]
+  · simp [f_gsl_sf_fermi_dirac_3half, Formulas.d, Formulas.h, RExpr.inline, specE, RExpr.subst, dsym, dsymE, eval, diff, envOf, *]
+    try field_simp
+    try ring
+    all_goals (try simp)
+
+theorem fermi_dirac_3half_h0 (x : ℝ) (hI0 : Ident I "gsl_sf_fermi_dirac_half" x) :
+    HasDerivAt (fun t => evalT I (Function.update (envOf [x]) 0 t) (f_gsl_sf_fermi_dirac_3half.d 0)) (evalT I (envOf [x]) (f_gsl_sf_fermi_dirac_3half.h 0)) x := by
+  refine deriv_of_formula I _ _ _ _ ?_ ?_
+  · simp [f_gsl_sf_fermi_dirac_3half, Formulas.d, Formulas.h, RExpr.inline, specE, RExpr.subst, Ok, dsym, dsymE, eval, envOf, *]
+  · simp [f_gsl_sf_fermi_dirac_3half, Formulas.d, Formulas.h, RExpr.inline, specE, RExpr.subst, dsym, dsymE, eval, diff, envOf, *]
+    try field_simp
+    try ring
+    all_goals (try simp)
+
+theorem gamma_d0 (x : ℝ) (hI0 : Ident I "gsl_sf_gamma" x) :
+    HasDerivAt (fun t => evalT I (Function.update (envOf [x]) 0 t) (f_gsl_sf_gamma.value)) (evalT I (envOf [x]) (f_gsl_sf_gamma.d 0)) x := by
+  refine deriv_of_formula I _ _ _ _ ?_ ?_
+  · simp [f_gsl_sf_gamma, Formulas.d, Formulas.h, RExpr.inline, specE, RExpr.subst, Ok, dsym, dsymE, eval, envOf, *]
+  · simp [f_gsl_sf_gamma, Formulas.d, Formulas.h, RExpr.inline, specE, RExpr.subst, dsym, dsymE, eval, diff, envOf, *]
+    try field_simp
+    try ring
+    all_goals (try simp)
+
+theorem gamma_h0 (x : ℝ) (hI0 : Ident I "gsl_sf_gamma" x) (hI1 : Ident I "gsl_sf_psi" x) :
+    HasDerivAt (fun t => evalT I (Function.update (envOf [x]) 0 t) (f_gsl_sf_gamma.d 0)) (evalT I (envOf [x]) (f_gsl_sf_gamma.h 0)) x := by
+  refine deriv_of_formula I _ _ _ _ ?_ ?_
+  · simp [f_gsl_sf_gamma, Formulas.d, Formulas.h, RExpr.inline, specE, RExpr.subst, Ok, dsym, dsymE, eval, envOf, *]
+  · simp [f_gsl_sf_gamma, Formulas.d, Formulas.h, RExpr.inline, specE, RExpr.subst, dsym, dsymE, eval, diff, envOf, *]
+    try field_simp
+    try ring
+    all_goals (try simp)
+
+theorem psi_1_d0 (x : ℝ) (hI0 : Ident I "gsl_sf_psi_1" x) :
+    HasDerivAt (fun t => evalT I (Function.update (envOf [x]) 0 t) (f_gsl_sf_psi_1.value)) (evalT I (envOf [x]) (f_gsl_sf_psi_1.d 0)) x := by
+  refine deriv_of_formula I _ _ _ _ ?_ ?_
+  · simp [f_gsl_sf_psi_1, Formulas.d, Formulas.h, RExpr.inline, specE, RExpr.subst, Ok, dsym, dsymE, eval, envOf, *]
+  · simp [f_gsl_sf_psi_1, Formulas.d, Formulas.h, RExpr.inline, specE, RExpr.subst, dsym, dsymE, eval, diff, envOf, *]
+    try field_simp
+    try ring
+    all_goals (try simp)
+
+theorem psi_1_h0 (x : ℝ) (hI0 : Ident I "gsl_sf_psi_n#2" x) :
+    HasDerivAt (fun t => evalT I (Function.update (envOf [x]) 0 t) (f_gsl_sf_psi_1.d 0)) (evalT I (envOf [x]) (f_gsl_sf_psi_1.h 0)) x := by
+  refine deriv_of_formula I _ _ _ _ ?_ ?_
+  · simp [f_gsl_sf_psi_1, Formulas.d, Formulas.h, RExpr.inline, specE, RExpr.subst, Ok, dsym, dsymE, eval, envOf, *]
+  · simp [f_gsl_sf_psi_1, Formulas.d, Formulas.h, RExpr.inline, specE, RExpr.subst, dsym, dsymE, eval, diff, envOf, *]
+    try field_simp
+    try ring
+    all_goals (try simp)
+
+theorem cdf_ugaussian_P_d0 (x : ℝ) (hI0 : Ident I "gsl_cdf_ugaussian_P" x) :
+    HasDerivAt (fun t => evalT I (Function.update (envOf [x]) 0 t) (f_gsl_cdf_ugaussian_P.value)) (evalT I (envOf [x]) (f_gsl_cdf_ugaussian_P.d 0)) x := by
+  refine deriv_of_formula I _ _ _ _ ?_ ?_
+  · simp [f_gsl_cdf_ugaussian_P, Formulas.d, Formulas.h, RExpr.inline, specE, RExpr.subst, Ok, dsym, dsymE, eval, envOf, *]
+  · simp [f_gsl_cdf_ugaussian_P, Formulas.d, Formulas.h, RExpr.inline, specE, RExpr.subst, dsym, dsymE, eval, diff, envOf, *]
+    try field_simp
+    try ring
+    all_goals (try simp)
+
+theorem cdf_ugaussian_P_h0 (x : ℝ) (hI0 : Ident I "gsl_ran_ugaussian_pdf" x) :
+    HasDerivAt (fun t => evalT I (Function.update (envOf [x]) 0 t) (f_gsl_cdf_ugaussian_P.d 0)) (evalT I (envOf [x]) (f_gsl_cdf_ugaussian_P.h 0)) x := by
+  refine deriv_of_formula I _ _ _ _ ?_ ?_
+  · simp [f_gsl_cdf_ugaussian_P, Formulas.d, Formulas.h, RExpr.inline, specE, RExpr.subst, Ok, dsym, dsymE, eval, envOf, *]
+  · simp [f_gsl_cdf_ugaussian_P, Formulas.d, Formulas.h, RExpr.inline, specE, RExpr.subst, dsym, dsymE, eval, diff, envOf, *]
+    try field_simp
+    try ring
+    all_goals (try simp)
+
+theorem ran_ugaussian_pdf_d0 (x : ℝ) (hI0 : Ident I "gsl_ran_ugaussian_pdf" x) :
+    HasDerivAt (fun t => evalT I (Function.update (envOf [x]) 0 t) (f_gsl_ran_ugaussian_pdf.value)) (evalT I (envOf [x]) (f_gsl_ran_ugaussian_pdf.d 0)) x := by
+  refine deriv_of_formula I _ _ _ _ ?_ ?_
+  · simp [f_gsl_ran_ugaussian_pdf, Formulas.d, Formulas.h, RExpr.inline, specE, RExpr.subst, Ok, dsym, dsymE, eval, envOf, *]
+  · simp [f_gsl_ran_ugaussian_pdf, Formulas.d, Formulas.h, RExpr.inline, specE, RExpr.subst, dsym, dsymE, eval, diff, envOf, *]
+    try field_simp
+    try ring
+    all_goals (try simp)
+
+theorem ran_ugaussian_pdf_h0 (x : ℝ) (hI0 : Ident I "gsl_ran_ugaussian_pdf" x) :
+    HasDerivAt (fun t => evalT I (Function.update (envOf [x]) 0 t) (f_gsl_ran_ugaussian_pdf.d 0)) (evalT I (envOf [x]) (f_gsl_ran_ugaussian_pdf.h 0)) x := by
+  refine deriv_of_formula I _ _ _ _ ?_ ?_
+  · simp [f_gsl_ran_ugaussian_pdf, Formulas.d, Formulas.h, RExpr.inline, specE, RExpr.subst, Ok, dsym, dsymE, eval, envOf, *]
+  · simp [f_gsl_ran_ugaussian_pdf, Formulas.d, Formulas.h, RExpr.inline, specE, RExpr.subst, dsym, dsymE, eval, diff, envOf, *]
+    try field_simp
+    try ring
+    all_goals (try simp)
+
 end MpVerif.C16
+
